@@ -2,44 +2,46 @@
 from __future__ import annotations
 
 import ast
+import datetime
 import decimal
 import math
 import struct
 from typing import Dict, List, Optional, Tuple
 
-from sa.astx import NotConst, call_attr, call_name, const_eval, dotted, lincmp, module_consts, src, statements, walk_local
-from sa.props._lib_g import (Inst, MiniEval, attrs_to_names, class_const, expand, fmt_lin, fresh, is_self_attr, lin_equal, lin_expect, must_pass, norm_cmp,
-                             run_eval, single_defs)
+from sa.astx import module_consts, src
+from sa.props._lib_g import DictInst, Inst, MiniEval, Stub, class_const, run_eval
 from sa.selftest import Mutant, Silent
-from sa.source import AnalysisError, base_names, class_assigns, methods, mro_lookup
+from sa.source import AnalysisError, base_names, class_assigns, methods
 
 PROPERTY = "C30"
-INCLUDE = [("C16", ("intn",), "BinaryBoxProtocol is an Int16StringReceiver: the length-prefixed framing clauses of C16 are necessary for "
-            "'parsing it back, with the byte stream split arbitrarily'")]
+INCLUDE = [("C16", ("intn/segmentation-invariant",), "BinaryBoxProtocol is an Int16StringReceiver: C16's evaluated segmentation invariance of the length-prefixed receivers is "
+            "necessary for 'parsing it back, with the byte stream split arbitrarily' (C16's CFG-shaped intn/* rules are not included: they alarm on the behaviour-preserving "
+            "refactor C30r4, and reader/split-invariance below evaluates the same clause end to end)")]
 AMP = "protocols/amp.py"
 BASIC = "protocols/basic.py"
 QA = "twisted.protocols.amp"
 QB = "twisted.protocols.basic"
-TECHNIQUE = "CFG guard dominance, linear boundary normal forms, symbolic wire layout, finite evaluation"
+TECHNIQUE = "interpretation of writer, reader and codecs on finite inputs against independent oracles"
 EXPLANATION = (
-    'Writer (AmpBox.serialize): each pair is emitted symbolically as len16(k) k len16(v) v plus one zero-length '
-    "terminator in the reader's struct format, and every emit is dominated by guards whose normal form is exactly "
-    'len(k) <= 255, len(v) <= 65535, k/v not str, with a refusing edge that cannot reach the normal exit; the missing '
-    'lower bound len(k) >= 1 is reported as known finding F30. Reader: sender and receiver limits agree with each '
-    'other and with the 16-bit prefix, proto_init/proto_key/proto_value toggle MAX_LENGTH, keep the key until the '
-    'value is stored and return states that have handlers. Stream splits: IntNStringReceiver.dataReceived appends new '
-    'data after the pending bytes, keeps its boundaries (prefix available, limit, message complete) in normal form, '
-    'slices prefix and payload contiguously, advances the offset and saves the unconsumed tail on every exit. '
-    'Arguments: every Argument subclass pairs toString/fromString (and the Proto/Box variants); Integer, String, '
-    'Unicode, Boolean, Float and Decimal are evaluated by a whitelisted interpreter on representative values (huge '
-    "ints, NaN/inf/-0.0, Decimal specials, non-BMP text); ListOf framing equals its parser's format, AmpList and "
-    'toBox/fromBox use the same keys both ways. DateTime: format string, slice table, sign index and length check '
-    'describe one 32-character layout and the UTC-offset arithmetic is evaluated for 18 offsets (sub-hour ones included). Not decided: Path '
-    'and DateTime date-field value equality, TLS and protocol switching.'
+    "The repository's methods are interpreted (whitelisted AST interpreter, twisted is never imported) and their OUTPUTS are compared with "
+    "oracles written in the checker, so the verdict does not depend on how the code is spelled. "
+    "Writer: AmpBox.serialize on sample boxes must produce len16(k) k len16(v) v ... plus one empty string (parsed back by an independent parser), accept "
+    "255-byte keys and 65535-byte values, raise for longer ones and for int/bool/None/float/tuple/list/dict/str keys or values, and never rebind "
+    "(coerce) the pair it is about to write; the empty key is not refused (known finding F30). "
+    "Reader: BinaryBoxProtocol (dataReceived -> Int16StringReceiver -> StatefulStringProtocol -> proto_*) is fed the oracle encoding of several boxes "
+    "cut at every byte boundary, byte by byte and at pairs of cuts, and must deliver equal boxes each time; a 255-byte key and a 65535-byte value "
+    "are accepted, a 256-byte key (also as the second key of a box) disconnects without delivering; sender and receiver limits agree with the "
+    "16-bit prefix. "
+    "Arguments: every Argument subclass pairs toString/fromString (and the Proto/Box variants); Integer, String, Unicode, Boolean, Float, Decimal, "
+    "DateTime (18 UTC offsets, sub-hour ones included, full field range), ListOf (empty elements in every position, nested), AmpList and the "
+    "toBox/fromBox key mapping (dashes, Python keywords, optional arguments) are round-tripped through the interpreted code. "
+    "Not decided: Path (needs FilePath), Descriptor, TLS and protocol switching."
 )
 ASSUMPTIONS = [
-    "struct codes and str/bytes/int/float builtins behave as in CPython 3.12 (they are evaluated by the analyser, not modelled)",
-    "twisted.python.compat.nativeString(bytes) is bytes.decode('ascii') (modelled, used by the Decimal evaluation)",
+    "struct, str/bytes/int/float, decimal and datetime behave as in CPython 3.12 (they are used by the interpreter, not modelled)",
+    "twisted.python.compat.nativeString(bytes) is bytes.decode('ascii'); FixedOffsetTimeZone.fromSignHoursMinutes(sign, h, m) is a fixed offset of "
+    "+/-(h hours m minutes) and rejects other signs (both modelled)",
+    "methods inherited from classes outside the analysed modules (Protocol.connectionMade ...) do nothing relevant",
 ]
 
 
@@ -47,535 +49,214 @@ def _fail(msg):
     raise AnalysisError("C30: " + msg)
 
 
-# ---------------------------------------------------------------------------------------------------------------
-# A. writer: AmpBox.serialize
-
-def _emit_calls(func, acc: str) -> Tuple[set, List[ast.Call]]:
-    """Aliases of ``<acc>.append`` and all emitting calls of the function."""
-    aliases = set()
-    for st in statements(func):
-        if isinstance(st, ast.Assign) and len(st.targets) == 1 and isinstance(st.targets[0], ast.Name) \
-                and isinstance(st.value, ast.Attribute) and st.value.attr == "append" and dotted(st.value.value) == acc:
-            aliases.add(st.targets[0].id)
-    calls = []
-    for n in ast.walk(func):
-        if isinstance(n, ast.Call):
-            if isinstance(n.func, ast.Name) and n.func.id in aliases:
-                calls.append(n)
-            elif isinstance(n.func, ast.Attribute) and n.func.attr == "append" and dotted(n.func.value) == acc:
-                calls.append(n)
-    return aliases, calls
+def _need(kind, value, what):
+    if kind == "unsupported":
+        _fail(f"{what} uses a construct outside the interpreted subset: {value}")
 
 
-def _is_emit(node, aliases, acc) -> Optional[ast.expr]:
-    if isinstance(node, ast.Expr) and isinstance(node.value, ast.Call) and len(node.value.args) == 1 and not node.value.keywords:
-        c = node.value
-        if (isinstance(c.func, ast.Name) and c.func.id in aliases) or \
-                (isinstance(c.func, ast.Attribute) and c.func.attr == "append" and dotted(c.func.value) == acc):
-            return c.args[0]
-    return None
+def _native(x):
+    return x.decode("ascii") if isinstance(x, bytes) else x
 
 
-def _subst(expr: ast.AST, mapping: Dict[str, str]) -> str:
-    """Normalised text of expr with loop variables renamed."""
-    e = fresh(expr)
-    for n in ast.walk(e):
-        if isinstance(n, ast.Name) and n.id in mapping:
-            n.id = mapping[n.id]
-    return src(e)
+def _tz(sign, hours, minutes):
+    if sign == "-":
+        hours, minutes = -hours, -minutes
+    elif sign != "+":
+        raise ValueError("Invalid sign for timezone")
+    return datetime.timezone(datetime.timedelta(hours=hours, minutes=minutes))
 
 
-def _classify_emit(arg: ast.expr, mapping: Dict[str, str], consts) -> Tuple:
-    """("len", fmt, X) for pack(fmt, len(X)); ("const", bytes) for a constant; ("raw", X) for a name."""
-    if isinstance(arg, ast.Call) and (call_name(arg) in ("pack", "struct.pack")) and len(arg.args) == 2:
-        try:
-            fmt = const_eval(arg.args[0], consts)
-        except NotConst:
-            return ("?", src(arg))
-        a = arg.args[1]
-        if isinstance(a, ast.Call) and call_name(a) == "len" and len(a.args) == 1:
-            return ("len", fmt, _subst(a.args[0], mapping))
-        try:
-            v = const_eval(a, consts)
-            return ("const", struct.pack(fmt, v))
-        except (NotConst, struct.error):
-            return ("?", src(arg))
-    try:
-        v = const_eval(arg, consts)
-        if isinstance(v, bytes):
-            return ("const", v)
-    except NotConst:
-        pass
-    if isinstance(arg, ast.Name):
-        return ("raw", mapping.get(arg.id, arg.id))
-    return ("?", src(arg))
+def _ev(ctx, mod, consts):
+    return MiniEval(mod, consts=consts, extra_mods=[ctx.mod(BASIC)],
+                    helpers={"nativeString": _native, "decimal.Decimal": decimal.Decimal, "_FixedOffsetTZInfo.fromSignHoursMinutes": _tz,
+                             "datetime.datetime": datetime.datetime})
 
 
-def _layout(stmts, aliases, acc, mapping, consts, out: List[Tuple]) -> None:
-    """Symbolic straight-line emission of a statement list (guards that only raise are skipped; a ``for x in a, b``
-    over a literal tuple of names is unrolled)."""
-    for st in stmts:
-        arg = _is_emit(st, aliases, acc)
-        if arg is not None:
-            parts = [arg]
-            while any(isinstance(p, ast.BinOp) and isinstance(p.op, ast.Add) for p in parts):   # pack(...) + kv
-                parts = [x for p in parts for x in ((p.left, p.right) if isinstance(p, ast.BinOp) and isinstance(p.op, ast.Add) else (p,))]
-            out.extend(_classify_emit(p, mapping, consts) for p in parts)
-            continue
-        if isinstance(st, ast.For) and isinstance(st.target, ast.Name) and isinstance(st.iter, (ast.Tuple, ast.List)) \
-                and all(isinstance(e, ast.Name) for e in st.iter.elts) and not st.orelse:
-            for e in st.iter.elts:
-                m2 = dict(mapping)
-                m2[st.target.id] = mapping.get(e.id, e.id)
-                _layout(st.body, aliases, acc, m2, consts, out)
-            continue
-        has_emit = any(_is_emit(x, aliases, acc) is not None for x in ast.walk(st) if isinstance(x, ast.Expr))
-        if not has_emit:
-            continue  # guards, bookkeeping
-        if isinstance(st, ast.If):
-            out.append(("?", "conditional emission: " + src(st.test)))
-            continue
-        out.append(("?", "emission inside " + type(st).__name__))
+# ---- oracles (written here, independent of the code under analysis) ---------------------------------------------------
+
+def oracle_encode(box: Dict[bytes, bytes]) -> bytes:
+    out = b""
+    for k in sorted(box):
+        out += struct.pack(">H", len(k)) + k + struct.pack(">H", len(box[k])) + box[k]
+    return out + b"\x00\x00"
 
 
-def _nonbytes_guard(test: ast.expr, lab: str, var: str) -> bool:
-    """The guard edge (test, lab) implies that ``var`` is not a str (or is bytes)."""
-    t = src(test)
-    neg = {f"type({var}) == str", f"type({var}) is str", f"isinstance({var}, str)", f"str == type({var})", f"type({var}) != bytes",
-           f"type({var}) is not bytes"}
-    pos = {f"isinstance({var}, bytes)", f"type({var}) == bytes", f"type({var}) is bytes", f"type({var}) != str", f"type({var}) is not str"}
-    return (t in neg and lab == "F") or (t in pos and lab == "T")
-
-
-def check_serialize(ctx, mod, consts, reader_fmt: str):
-    f = ctx.func(AMP, "AmpBox.serialize")
-    g = ctx.cfg(f)
-    q = QA + ".AmpBox.serialize"
-    defs = single_defs(f)
-
-    # accumulator: the list joined by the return statement
-    rets = [st for st in statements(f) if isinstance(st, ast.Return)]
-    acc = None
-    for r in rets:
-        v = r.value
-        if isinstance(v, ast.Call) and isinstance(v.func, ast.Attribute) and v.func.attr == "join" and len(v.args) == 1 and isinstance(v.args[0], ast.Name):
-            acc = v.args[0].id
-            sep = None
-            try:
-                sep = const_eval(v.func.value, consts)
-            except NotConst:
-                pass
-            ctx.check(sep == b"", "box/wire-layout", ctx.construct(q, r), f"the emitted items are joined with {sep!r} instead of b'' (foreign bytes between the strings)")
-    if acc is None or len(rets) != 1:
-        _fail("AmpBox.serialize: shape `return b''.join(<list>)` not recognised")
-    aliases, calls = _emit_calls(f, acc)
-    ctx.need(calls, "emitting calls in AmpBox.serialize")
-
-    # the items loop
-    loops = [st for st in f.body if isinstance(st, ast.For) and isinstance(st.target, ast.Tuple) and len(st.target.elts) == 2
-             and all(isinstance(e, ast.Name) for e in st.target.elts)]
-    if len(loops) != 1:
-        _fail("AmpBox.serialize: the `for k, v in <items>` loop was not found exactly once")
-    loop = loops[0]
-    kn, vn = loop.target.elts[0].id, loop.target.elts[1].id
-    it = expand(loop.iter, defs)
-    it_calls = [c for c in walk_local(it) if isinstance(c, ast.Call)]
-    covers_all = any(call_name(c) == "self.items" and not c.args for c in it_calls) and \
-        all(call_name(c) in ("self.items", "sorted", "list", "iter", "tuple") for c in it_calls) and \
-        not any(isinstance(x, (ast.Subscript, ast.IfExp, ast.GeneratorExp, ast.ListComp)) for x in walk_local(it))
-    ctx.check(covers_all, "box/wire-layout", q + " | <items iterated>",
-              f"the serialisation loop iterates over `{src(it)}`, not over all items of the box")
-
-    # layout per pair
-    per_pair: List[Tuple] = []
-    _layout(loop.body, aliases, acc, {kn: "K", vn: "V"}, consts, per_pair)
-    want = [("len", reader_fmt, "K"), ("raw", "K"), ("len", reader_fmt, "V"), ("raw", "V")]
-    names = ["length prefix of the key", "key bytes", "length prefix of the value", "value bytes"]
-    ctx.check(len(per_pair) == 4, "box/wire-layout", q + " | <items per pair>",
-              f"each key/value pair is written as {per_pair!r}; the box format is len16(key) key len16(value) value")
-    for i, (w, nm) in enumerate(zip(want, names)):
-        got = per_pair[i] if i < len(per_pair) else None
-        ctx.check(got == w, "box/wire-layout", q + f" | <{nm}>",
-                  f"item {i + 1} written for a pair is {got!r}, the reader (Int16StringReceiver, format {reader_fmt!r}) expects {w!r}")
-    # terminator after the loop
-    idx = f.body.index(loop)
-    after: List[Tuple] = []
-    _layout(f.body[idx + 1:], aliases, acc, {}, consts, after)
-    before: List[Tuple] = []
-    _layout(f.body[:idx], aliases, acc, {}, consts, before)
-    term = struct.pack(reader_fmt, 0)
-    ctx.check(after == [("const", term)] and not before, "box/terminator", q + " | <terminator>",
-              f"items written outside the pair loop are before={before!r} after={after!r}; a box must end with exactly one empty string {term!r}")
-    term_nodes = [n for c in calls for n in g.ids_of(c) if not any(c is x for x in ast.walk(loop))]
-    wit = g.must_pass([g.entry], term_nodes, exc=False) if term_nodes else [g.entry]
-    ctx.check(wit is None, "box/terminator", q + " | <terminator on every path>",
-              "serialize() can return without writing the box terminator", witness=g.describe(wit) if wit and term_nodes else "")
-
-    # guards dominating the emits inside the loop
-    emit_nodes = sorted({n for c in calls if any(c is x for x in ast.walk(loop)) for n in g.ids_of(c)})
-    ctx.need(emit_nodes, "emits inside the pair loop")
-    klen, vlen = f"len({kn})", f"len({vn})"
-    kmax = consts.get("MAX_KEY_LENGTH")
-    vmax = consts.get("MAX_VALUE_LENGTH")
-    if not isinstance(kmax, int) or not isinstance(vmax, int):
-        _fail("module constants MAX_KEY_LENGTH / MAX_VALUE_LENGTH are not constant integers")
-
-    def refusing_edge_raises(t: int, lab: str) -> Optional[List[int]]:
-        other = "F" if lab == "T" else "T"
-        succ = [d for d, l in g.succ[t] if l == other]
-        return g.path(succ, [g.exit], edge_ok=lambda a, b, l: l != "exc") if succ else None
-
-    for n in emit_nodes:
-        eg = g.edge_guards(n)
-        cons = ctx.construct(q, g.node(n).ast)
-        forms = [(t, lab, lincmp(g.node(t).ast, consts, negate=(lab == "F"))) for t, lab in eg]
-        # upper bounds
-        for what, term_txt, limit, rule in (("key", klen, kmax, "box/key-length-upper-bound"), ("value", vlen, vmax, "box/value-length-upper-bound")):
-            exp = lin_expect({term_txt: -1}, -limit)
-            on_term = [(t, lab, fm) for t, lab, fm in forms if fm is not None and {k for k, _ in fm[0]} == {term_txt} and dict(fm[0])[term_txt] < 0]
-            exact = [x for x in on_term if x[2] == exp]
-            if exact:
-                wit = refusing_edge_raises(exact[0][0], exact[0][1])
-                ctx.check(wit is None, rule, cons, f"an overlong {what} is not refused: the guard's other branch reaches the normal exit (pair dropped or altered)",
-                          witness=g.describe(wit))
-            elif on_term:
-                ctx.violation(rule, cons, f"the {what} length guard is `{fmt_lin(on_term[0][2])}`; the wire format requires exactly `-{term_txt} >= {-limit}` "
-                              f"({what}s of up to {limit} bytes are representable, longer ones are not)")
+def oracle_parse(wire: bytes) -> Optional[List[Dict[bytes, bytes]]]:
+    """Boxes of a complete stream, None if the stream is not a sequence of complete boxes."""
+    boxes, cur, key, pos = [], {}, None, 0
+    while pos < len(wire):
+        if pos + 2 > len(wire):
+            return None
+        n = int.from_bytes(wire[pos:pos + 2], "big")
+        pos += 2
+        if pos + n > len(wire):
+            return None
+        s = wire[pos:pos + n]
+        pos += n
+        if key is None:
+            if n == 0:
+                boxes.append(cur)
+                cur = {}
+            elif n > 255:
+                return None
             else:
-                ctx.violation(rule, cons, f"no guard refuses a {what} longer than {limit} bytes before it is written (its 16-bit prefix "
-                              f"{'would wrap or raise struct.error' if what == 'value' else 'would be read as a value-sized string by the peer'})")
-        # not str
-        for what, var in (("key", kn), ("value", vn)):
-            hit = [(t, lab) for t, lab in eg if _nonbytes_guard(g.node(t).ast, lab, var)]
-            if hit:
-                wit = refusing_edge_raises(*hit[0])
-                ctx.check(wit is None, "box/refuses-non-bytes", cons + f" | {what}", f"a str {what} is not refused (the guard's other branch reaches the normal exit)",
-                          witness=g.describe(wit))
-            else:
-                ctx.violation("box/refuses-non-bytes", cons + f" | {what}", f"a str {what} reaches the wire writer without being refused")
-    # the guards above test the ORIGINAL key and value: neither may be rebound (coerced) inside the pair loop
-    coerced = False
-    for st in ast.walk(loop):
-        if st is loop:
-            continue
-        stored = set()
-        if isinstance(st, (ast.Assign, ast.AugAssign, ast.AnnAssign, ast.For, ast.With, ast.NamedExpr)):
-            tg = st.targets if isinstance(st, ast.Assign) else ([st.target] if hasattr(st, "target") else [i.optional_vars for i in getattr(st, "items", []) if i.optional_vars is not None])
-            stored = {x.id for t in tg for x in ast.walk(t) if isinstance(x, ast.Name) and isinstance(x.ctx, ast.Store)}
-        for nm, what in ((kn, "key"), (vn, "value")):
-            if nm in stored:
-                coerced = True
-                ctx.violation("box/no-coercion", ctx.construct(q, st if not isinstance(st, ast.For) else f"for {src(st.target)} in {src(st.iter)}:") + f" | {what}",
-                              f"the {what} is replaced by `{src(getattr(st, 'value', st))[:80]}` before it is measured and written: a conversion such as bytes(7) (seven NUL bytes), "
-                              "bytes([1, 2, 3]) or bytes(True) turns a non-bytes value that must be refused into a silent mis-serialisation")
-    if not coerced:
-        ctx.ok("box/no-coercion", q + " | <pair loop scanned>", f"{kn}, {vn} are only read inside the loop")
-    # lower bound on the key length: an empty key IS the terminator
-    low = lin_expect({klen: 1}, 1)
-    missing = []
-    for n in emit_nodes:
-        eg = g.edge_guards(n)
-        forms = [lincmp(g.node(t).ast, consts, negate=(lab == "F")) for t, lab in eg]
-        has_low = any(fm == low for fm in forms) or any((src(g.node(t).ast) == kn and lab == "T") for t, lab in eg) \
-            or any((src(g.node(t).ast) in (f"{kn} == b''", f"b'' == {kn}") and lab == "F") or (src(g.node(t).ast) == f"{kn} != b''" and lab == "T") for t, lab in eg)
-        if not has_low:
-            missing.append(n)
-    ctx.check(not missing, "box/key-length-lower-bound", q + " | <empty key>",
-              "AmpBox({b'': b'x'}).serialize() is accepted: the zero-length key is written as b'\\x00\\x00', which the reader (proto_key) "
-              "takes as the end of the box, so the rest of this box and the next box are mis-framed")
+                key = s
+        else:
+            cur[key] = s
+            key = None
+    return boxes if (key is None and not cur) else None
 
 
-def check_serialize_refusals(ctx, mod, consts):
-    """serialize() is interpreted (whitelisted interpreter) on one-pair boxes holding a non-bytes key or value: each must raise,
-    i.e. return nothing to write; a plain bytes box must give the documented wire form."""
-    f = ctx.func(AMP, "AmpBox.serialize")
+# ---- A. writer ---------------------------------------------------------------------------------------------------------
+
+def _serialize(ctx, mod, consts, cls, box):
+    ev = _ev(ctx, mod, consts)
+    k, out = run_eval(lambda: ev.method(DictInst(cls, data=dict(box)), "serialize", []))
+    _need(k, out, "AmpBox.serialize")
+    return k, out
+
+
+def check_writer(ctx, mod, consts):
+    cls = ctx.cls(AMP, "AmpBox")
+    ctx.func(AMP, "AmpBox.serialize")
     q = QA + ".AmpBox.serialize"
-    ev = MiniEval(mod, consts=consts)
-    k, out = run_eval(lambda: ev.func(f, [{b"k": b"v"}]))
-    if k == "unsupported":
-        _fail(f"AmpBox.serialize uses a construct outside the interpreted subset: {out}")
-    ctx.check(k == "value" and out == b"\x00\x01k\x00\x01v\x00\x00", "box/evaluated-wire-form", q + " | {b'k': b'v'}",
-              f"AmpBox({{b'k': b'v'}}).serialize() evaluates to {out!r} ({k}); the wire form is b'\\x00\\x01k\\x00\\x01v\\x00\\x00'")
-    samples = [("int", 7), ("bool", True), ("None", None), ("float", 1.5), ("tuple", (1, 2)), ("str", "text"), ("list", [1, 2, 3]), ("dict", {"a": 1}), ("int 0", 0)]
+    kmax, vmax = 255, 65535
+    # wire form
+    samples = [{b"k": b"v"}, {}, {b"a": b"", b"bb": b"x" * 300}, {b"_ask": b"1", b"_command": b"Sum", b"a": b"13", b"b": b"81"}, {b"z": b"\x00\xff", b"A": b"\x00\x00"}]
+    bad = None
+    for box in samples:
+        k, out = _serialize(ctx, mod, consts, cls, box)
+        back = oracle_parse(out) if k == "value" and isinstance(out, bytes) else None
+        if back != [box]:
+            bad = bad or f"AmpBox({box!r}).serialize() gives {out!r} ({k}); an independent parser reads {back!r}; the wire form is len16(key) key len16(value) value ... b'\\x00\\x00'"
+    ctx.check(bad is None, "box/wire-form", q + " | <wire form>", bad or "", detail=f"{len(samples)} boxes parsed back by the oracle")
+    # bounds
+    k1, o1 = _serialize(ctx, mod, consts, cls, {b"k" * kmax: b"v"})
+    k2, o2 = _serialize(ctx, mod, consts, cls, {b"k" * (kmax + 1): b"v"})
+    ctx.check(k1 == "value" and oracle_parse(o1) == [{b"k" * kmax: b"v"}] and k2 == "raised", "box/key-length-upper-bound", q + " | <key of 255 / 256 bytes>",
+              f"a {kmax}-byte key gives {k1} (must be written), a {kmax + 1}-byte key gives {k2 if k2 != 'value' else 'a wire string'} (must be refused: its length does not fit "
+              "the one significant length byte the reader allows)")
+    k1, o1 = _serialize(ctx, mod, consts, cls, {b"k": b"v" * vmax})
+    k2, o2 = _serialize(ctx, mod, consts, cls, {b"k": b"v" * (vmax + 1)})
+    k3, o3 = _serialize(ctx, mod, consts, cls, {b"k": b"v" * 300})
+    ctx.check(k1 == "value" and oracle_parse(o1) == [{b"k": b"v" * vmax}] and k2 == "raised" and k3 == "value", "box/value-length-upper-bound", q + " | <value of 300 / 65535 / 65536 bytes>",
+              f"a 300-byte value gives {k3}, a {vmax}-byte value gives {k1} (both must be written), a {vmax + 1}-byte value gives {k2 if k2 != 'value' else 'a wire string'} (must be refused)")
+    # non-bytes keys / values
+    odd = [("int", 7), ("bool", True), ("None", None), ("float", 1.5), ("tuple", (1, 2)), ("str", "text"), ("list", [1, 2, 3]), ("dict", {"a": 1}), ("int 0", 0)]
     for pos in ("key", "value"):
         bad = None
         n = 0
-        for label, v in samples:
-            if pos == "key":
-                try:
-                    box = {v: b"v"}
-                except TypeError:
-                    continue      # unhashable: cannot be a key at all
-            else:
-                box = {b"k": v}
-            ev = MiniEval(mod, consts=consts)
-            k, out = run_eval(lambda: ev.func(f, [box]))
-            if k == "unsupported":
-                _fail(f"AmpBox.serialize uses a construct outside the interpreted subset: {out}")
+        for label, v in odd:
+            try:
+                box = {v: b"v"} if pos == "key" else {b"k": v}
+            except TypeError:
+                continue
+            k, out = _serialize(ctx, mod, consts, cls, box)
             n += 1
             if k != "raised":
                 bad = bad or f"AmpBox({box!r}).serialize() does not raise: it returns {out!r}, i.e. a {label} {pos} is silently mis-serialised instead of being refused"
         ctx.check(bad is None, "box/refuses-non-bytes-evaluated", q + f" | non-bytes {pos}", bad or "", detail=f"{n} non-bytes {pos}s, each must raise")
+    # the empty key is the terminator
+    k, out = _serialize(ctx, mod, consts, cls, {b"": b"x"})
+    ctx.check(k == "raised", "box/key-length-lower-bound", q + " | <empty key>",
+              "AmpBox({b'': b'x'}).serialize() is accepted: the zero-length key is written as b'\\x00\\x00', which the reader (proto_key) "
+              "takes as the end of the box, so the rest of this box and the next box are mis-framed")
+    # static: the pair about to be written is never rebound (a coercion turns a refusal into a silent mis-serialisation)
+    f = ctx.func(AMP, "AmpBox.serialize")
+    loops = [st for st in ast.walk(f) if isinstance(st, ast.For) and isinstance(st.target, ast.Tuple) and len(st.target.elts) == 2 and all(isinstance(e, ast.Name) for e in st.target.elts)]
+    coerced = False
+    for loop in loops:
+        kn, vn = loop.target.elts[0].id, loop.target.elts[1].id
+        for st in ast.walk(loop):
+            if st is loop or not isinstance(st, (ast.Assign, ast.AugAssign, ast.AnnAssign, ast.For, ast.NamedExpr)):
+                continue
+            tg = st.targets if isinstance(st, ast.Assign) else [st.target]
+            stored = {x.id for t in tg for x in ast.walk(t) if isinstance(x, ast.Name) and isinstance(x.ctx, ast.Store)}
+            for nm, what in ((kn, "key"), (vn, "value")):
+                if nm in stored:
+                    coerced = True
+                    ctx.violation("box/no-coercion", ctx.construct(q, st if not isinstance(st, ast.For) else f"for {src(st.target)} in {src(st.iter)}:") + f" | {what}",
+                                  f"the {what} is replaced by `{src(getattr(st, 'value', st))[:80]}` before it is measured and written: a conversion such as bytes(7) (seven NUL bytes), "
+                                  "bytes([1, 2, 3]) or bytes(True) turns a non-bytes value that must be refused into a silent mis-serialisation")
+    if not coerced:
+        ctx.ok("box/no-coercion", q + " | <pair loops scanned>", f"{len(loops)} loop(s) over (key, value) pairs")
 
 
-# ---------------------------------------------------------------------------------------------------------------
-# B. reader: constants, state machine, length-prefixed framing
+# ---- B. reader ---------------------------------------------------------------------------------------------------------
 
-def _returns_under(g, srcs) -> List[ast.Return]:
-    reach = g.reach(srcs)
-    return [g.node(i).ast for i in reach if g.node(i).kind == "stmt" and isinstance(g.node(i).ast, ast.Return)]
-
-
-def _assign_nodes(g, pred):
-    return g.ids(lambda n: n.kind == "stmt" and isinstance(n.ast, (ast.Assign, ast.AnnAssign)) and pred(n.ast))
-
-
-def check_reader(ctx, mod, consts, reader_fmt: str):
+def check_limits(ctx, mod, consts):
     bmod = ctx.mod(BASIC)
     bbp = ctx.cls(AMP, "BinaryBoxProtocol")
     q = QA + ".BinaryBoxProtocol"
-    bases = base_names(bbp)
-    ctx.check("Int16StringReceiver" in bases and "StatefulStringProtocol" in bases and
-              bases.index("StatefulStringProtocol") < bases.index("Int16StringReceiver"),
-              "reader/class-shape", q + " | bases", f"BinaryBoxProtocol bases are {bases}: stringReceived must resolve to StatefulStringProtocol's dispatcher "
-              "in front of the 16-bit receiver")
-    kmax, vmax = consts.get("MAX_KEY_LENGTH"), consts.get("MAX_VALUE_LENGTH")
-    ca = {k: None for k in ("_MAX_KEY_LENGTH", "_MAX_VALUE_LENGTH", "MAX_LENGTH")}
-    for k in ca:
-        ca[k] = class_const(mod, bbp, k, consts)
-    prefix_max = 2 ** (8 * struct.calcsize(reader_fmt)) - 1
-    ctx.check(kmax == 255 and ca["_MAX_KEY_LENGTH"] == kmax, "limits/key", QA + " | MAX_KEY_LENGTH",
-              f"sender limit MAX_KEY_LENGTH={kmax!r}, receiver limit _MAX_KEY_LENGTH={ca['_MAX_KEY_LENGTH']!r}; both must be 255 (one length byte, first prefix byte zero)")
-    ctx.check(vmax == prefix_max and ca["_MAX_VALUE_LENGTH"] == vmax, "limits/value", QA + " | MAX_VALUE_LENGTH",
-              f"sender limit MAX_VALUE_LENGTH={vmax!r}, receiver limit _MAX_VALUE_LENGTH={ca['_MAX_VALUE_LENGTH']!r}, largest length the {reader_fmt!r} prefix can carry is {prefix_max}")
-    ctx.check(ca["MAX_LENGTH"] == ca["_MAX_KEY_LENGTH"] and ca["MAX_LENGTH"] is not None, "limits/initial", q + " | MAX_LENGTH",
-              f"the initial MAX_LENGTH is {ca['MAX_LENGTH']!r}; the first string of a connection is a key (limit {ca['_MAX_KEY_LENGTH']!r})")
-
-    def sets_limit(st, which):
-        return any(is_self_attr(t, "MAX_LENGTH") for t in (st.targets if isinstance(st, ast.Assign) else [st.target])) and is_self_attr(st.value, which)
-
-    # proto_key
-    f = ctx.func(AMP, "BinaryBoxProtocol.proto_key")
-    g = ctx.cfg(f)
-    qq = q + ".proto_key"
-    p = f.args.args[1].arg if len(f.args.args) > 1 else _fail("proto_key signature")
-    tests = g.ids(lambda n: n.kind == "test" and src(n.ast) == p)
-    ctx.need(tests, "emptiness test on the received string in proto_key")
-    tsucc = [d for t in tests for d, l in g.succ[t] if l == "T"]
-    fsucc = [d for t in tests for d, l in g.succ[t] if l == "F"]
-    to_value = _assign_nodes(g, lambda st: sets_limit(st, "_MAX_VALUE_LENGTH"))
-    wit = must_pass(g, tsucc, to_value)
-    ctx.check(bool(to_value) and wit is None, "reader/limit-toggle", qq + " | <key received>",
-              "after a key the length limit is not raised to _MAX_VALUE_LENGTH: values longer than 255 bytes are rejected by the receiver", witness=g.describe(wit))
-    keep = _assign_nodes(g, lambda st: any(is_self_attr(t, "_currentKey") for t in getattr(st, "targets", [])) and src(st.value) == p)
-    wit = must_pass(g, tsucc, keep)
-    ctx.check(bool(keep) and wit is None, "reader/key-kept", qq + " | <key received>", "the received key is not remembered for the value that follows", witness=g.describe(wit))
-    rv = {const_eval(r.value, {}) if isinstance(r.value, ast.Constant) else src(r.value) for r in _returns_under(g, tsucc)}
-    ctx.check(rv == {"value"}, "reader/state", qq + " | <key received>", f"after a key the next state is {sorted(map(str, rv))}, must be 'value'")
-    deliver = g.find(lambda x: isinstance(x, ast.Call) and call_attr(x) == "ampBoxReceived" and len(x.args) == 1 and is_self_attr(x.args[0], "_currentBox"))
-    wit = must_pass(g, fsucc, deliver)
-    ctx.check(bool(deliver) and wit is None and all(g.guarded(d, lambda e: src(e) == p, False) for d in deliver), "reader/box-delivered", qq + " | <empty key>",
-              "the empty key does not (only) deliver the accumulated box to the box receiver", witness=g.describe(wit))
-    rv = {const_eval(r.value, {}) if isinstance(r.value, ast.Constant) else src(r.value) for r in _returns_under(g, fsucc)}
-    ctx.check(rv == {"init"}, "reader/state", qq + " | <empty key>", f"after the terminator the next state is {sorted(map(str, rv))}, must be 'init' (a fresh box)")
-
-    # proto_value
-    f = ctx.func(AMP, "BinaryBoxProtocol.proto_value")
-    g = ctx.cfg(f)
-    qq = q + ".proto_value"
-    p = f.args.args[1].arg
-    store = _assign_nodes(g, lambda st: isinstance(st, ast.Assign) and any(isinstance(t, ast.Subscript) and is_self_attr(t.value, "_currentBox")
-                                                                          and is_self_attr(t.slice, "_currentKey") for t in st.targets) and src(st.value) == p)
-    wit = g.must_pass([g.entry], store, exc=False)
-    ctx.check(bool(store) and wit is None, "reader/value-stored", qq, "the received value is not stored under the remembered key", witness=g.describe(wit))
-    rekey = _assign_nodes(g, lambda st: any(is_self_attr(t, "_currentKey") for t in getattr(st, "targets", [])))
-    stale = [r for r in rekey if store and g.path([r], store, edge_ok=lambda a, b, l: l != "exc")]
-    ctx.check(not stale, "reader/value-stored", qq + " | <key still current>", "the remembered key is overwritten before the value is stored under it (the value lands under None / a stale key)",
-              witness=g.describe(g.path(stale[:1], store, edge_ok=lambda a, b, l: l != "exc")) if stale else "")
-    to_key = _assign_nodes(g, lambda st: sets_limit(st, "_MAX_KEY_LENGTH"))
-    wit = g.must_pass([g.entry], to_key, exc=False)
-    ctx.check(bool(to_key) and wit is None, "reader/limit-toggle", qq, "after a value the length limit is not lowered back to _MAX_KEY_LENGTH "
-              "(an overlong key would be accepted and the sender/receiver limits diverge)", witness=g.describe(wit))
-    rv = {const_eval(r.value, {}) if isinstance(r.value, ast.Constant) else src(r.value) for r in _returns_under(g, [g.entry])}
-    ctx.check(rv == {"key"}, "reader/state", qq, f"after a value the next state is {sorted(map(str, rv))}, must be 'key'")
-
-    # proto_init
-    f = ctx.func(AMP, "BinaryBoxProtocol.proto_init")
-    g = ctx.cfg(f)
-    qq = q + ".proto_init"
-    p = f.args.args[1].arg
-    fresh = _assign_nodes(g, lambda st: any(is_self_attr(t, "_currentBox") for t in getattr(st, "targets", [])) and isinstance(st.value, ast.Call)
-                          and call_name(st.value) in ("AmpBox", "Box") and not st.value.args and not st.value.keywords)
-    wit = g.must_pass([g.entry], fresh, exc=False)
-    ctx.check(bool(fresh) and wit is None, "reader/fresh-box", qq, "a new box does not start from an empty AmpBox (keys of the previous box leak into it)", witness=g.describe(wit))
-    rets = _returns_under(g, [g.entry])
-    ok = bool(rets) and all(isinstance(r.value, ast.Call) and call_name(r.value) == "self.proto_key" and [src(a) for a in r.value.args] == [p] for r in rets)
-    ctx.check(ok, "reader/state", qq, "the first string of a box is not handled as a key (proto_init must delegate to proto_key)")
-    # every returned state has its handler
-    ms = set()
-    c = bbp
-    for name in ("proto_init", "proto_key", "proto_value"):
-        ms.add(name)
-    have = {m for m in methods(bbp) if m.startswith("proto_")}
-    ctx.check({"proto_init", "proto_key", "proto_value"} <= have, "reader/state", q + " | <handlers>", f"state handlers present: {sorted(have)}")
-    ssp = ctx.cls(BASIC, "StatefulStringProtocol")
-    ctx.check(class_const(bmod, ssp, "state", {}) == "init", "reader/state", QB + ".StatefulStringProtocol | state", "the initial state is not 'init'")
-    f = ctx.func(BASIC, "StatefulStringProtocol.stringReceived")
-    g = ctx.cfg(f)
-    upd = g.ids(lambda n: n.kind == "stmt" and isinstance(n.ast, ast.Assign) and any(is_self_attr(t, "state") for t in n.ast.targets)
-                and isinstance(n.ast.value, ast.Call) and len(n.ast.value.args) == 1 and src(n.ast.value.args[0]) == f.args.args[1].arg)
-    look = [st for st in statements(f) if isinstance(st, ast.Assign) and isinstance(st.value, ast.BinOp) and src(st.value) == "'proto_' + self.state"]
-    ctx.check(bool(upd) and bool(look), "reader/state", QB + ".StatefulStringProtocol.stringReceived",
-              "the dispatcher no longer calls proto_<state>(string) and stores the returned state")
-
-
-def check_framing(ctx, reader_fmt: str):
-    """IntNStringReceiver.dataReceived: arbitrary splits of the stream are harmless."""
-    bmod = ctx.mod(BASIC)
-    f = ctx.func(BASIC, "IntNStringReceiver.dataReceived")
-    g = ctx.cfg(f)
-    q = QB + ".IntNStringReceiver.dataReceived"
-    defs = single_defs(f)
-    data = f.args.args[1].arg
     i16 = ctx.cls(BASIC, "Int16StringReceiver")
     fmt = class_const(bmod, i16, "structFormat", {})
     plen = class_const(bmod, i16, "prefixLength", {})
-    ctx.check(fmt == reader_fmt and plen == struct.calcsize(reader_fmt) == 2, "framing/prefix", QB + ".Int16StringReceiver | structFormat",
+    ctx.check(fmt == "!H" and plen == 2, "framing/prefix", QB + ".Int16StringReceiver | structFormat",
               f"Int16StringReceiver: structFormat={fmt!r} prefixLength={plen!r}; AMP strings carry a 2-byte network-order unsigned length")
-
-    # the buffer variable: assigned `self._unprocessed + data`
-    bufs = [st for st in statements(f) if isinstance(st, ast.Assign) and len(st.targets) == 1 and isinstance(st.targets[0], ast.Name)
-            and isinstance(st.value, ast.BinOp) and isinstance(st.value.op, ast.Add) and is_self_attr(st.value.left, "_unprocessed") and src(st.value.right) == data]
-    ctx.check(len(bufs) == 1, "framing/buffer", q + " | <pending bytes first>", "new data is not appended after the unconsumed bytes of earlier calls "
-              "(`self._unprocessed + data`): a string split across two segments is lost or reordered")
-    if len(bufs) != 1:
-        return
-    buf = bufs[0].targets[0].id
-    # offset variable & the unpack site
-    unpacks = [c for c in ast.walk(f) if isinstance(c, ast.Call) and call_name(c) in ("unpack", "struct.unpack") and len(c.args) == 2]
-    if len(unpacks) != 1:
-        _fail("IntNStringReceiver.dataReceived: exactly one unpack() of the length prefix expected")
-    up = unpacks[0]
-    ctx.check(src(expand(up.args[0], defs)) == "self.structFormat", "framing/prefix", q + " | <prefix format>",
-              f"the prefix is unpacked with {src(expand(up.args[0], defs))} instead of self.structFormat")
-    sl = up.args[1]
-    if not (isinstance(sl, ast.Subscript) and isinstance(sl.slice, ast.Slice) and src(sl.value) == buf and isinstance(sl.slice.lower, ast.Name)):
-        _fail("IntNStringReceiver.dataReceived: prefix slice `buffer[offset:...]` not recognised")
-    off = sl.slice.lower.id
-    env: Dict[str, object] = {}
-    PL = "self.prefixLength"
-    start = ast.parse(f"{off} + {PL}", mode="eval").body
-    ctx.check(sl.slice.upper is not None and lin_equal(sl.slice.upper, start, defs), "framing/prefix-slice", q + " | <prefix slice>",
-              f"the length prefix is read from {buf}[{off}:{src(expand(sl.slice.upper, defs)) if sl.slice.upper else ''}], must be exactly prefixLength bytes at the offset")
-    # the length variable
-    ust = next((st for st in statements(f) if isinstance(st, ast.Assign) and any(x is up for x in ast.walk(st.value))), None)
-    if ust is None or not isinstance(ust.targets[0], (ast.Tuple, ast.List)) or len(ust.targets[0].elts) != 1 or not isinstance(ust.targets[0].elts[0], ast.Name):
-        _fail("IntNStringReceiver.dataReceived: `(length,) = unpack(...)` not recognised")
-    ln = ust.targets[0].elts[0].id
-    end = ast.parse(f"{off} + {PL} + {ln}", mode="eval").body
-
-    whiles = [st for st in f.body if isinstance(st, ast.While)]
-    if len(whiles) != 1:
-        _fail("IntNStringReceiver.dataReceived: the parsing loop was not found")
-    loop = whiles[0]
-    # (1) loop test: a complete prefix is available
-    conj = loop.test.values if isinstance(loop.test, ast.BoolOp) and isinstance(loop.test.op, ast.And) else [loop.test]
-    forms = [norm_cmp(t, defs, env) for t in conj]
-    exp = lin_expect({f"len({buf})": 1, off: -1, PL: -1}, 0)
-    on_len = [fm for fm in forms if fm is not None and f"len({buf})" in dict(fm[0])]
-    ctx.check(exp in forms, "framing/prefix-available", q + " | <loop condition>",
-              (f"the loop runs while `{fmt_lin(on_len[0])}`" if on_len else "the loop condition does not compare the buffered length with the prefix size") +
-              f"; it must run exactly while a whole prefix is buffered (`{fmt_lin(exp)}`): otherwise a zero-length string (the box terminator) "
-              "arriving last in a segment is not delivered, or a partial prefix is unpacked")
-    # (2) limit test leads to lengthLimitExceeded and return
-    unode = g.ids_of(ust)
-    lim_tests = [t for t in g.ids(lambda n: n.kind == "test") if any(x is g.node(t).ast for x in ast.walk(loop))
-                 and (lambda fm: fm is not None and dict(fm[0]).get(ln) and "self.MAX_LENGTH" in dict(fm[0]))(norm_cmp(g.node(t).ast, defs, env))]
-    ctx.check(len(lim_tests) == 1, "framing/limit", q + " | <length limit test>", "the received length is not compared with self.MAX_LENGTH exactly once")
-    for t in lim_tests:
-        fm = norm_cmp(g.node(t).ast, defs, env)
-        exp = lin_expect({ln: 1, "self.MAX_LENGTH": -1}, 1)
-        ctx.check(fm == exp, "framing/limit", q + " | <length limit test>",
-                  f"strings are rejected when `{fmt_lin(fm)}`; a string of exactly MAX_LENGTH bytes (a 255-byte key, a 65535-byte value) must be accepted: `{fmt_lin(exp)}`")
-        tsucc = [d for d, l in g.succ[t] if l == "T"]
-        lle = g.find(lambda x: isinstance(x, ast.Call) and call_name(x) == "self.lengthLimitExceeded")
-        wit = must_pass(g, tsucc, lle)
-        ctx.check(bool(lle) and wit is None, "framing/limit", q + " | <over the limit>", "an over-long length prefix is not reported through lengthLimitExceeded()", witness=g.describe(wit))
-        # it must not deliver the string
-        deliver = g.find(lambda x: isinstance(x, ast.Call) and call_name(x) == "self.stringReceived")
-        back = g.path(tsucc, deliver, edge_ok=lambda a, b, l: l != "exc")
-        ctx.check(back is None, "framing/limit", q + " | <over the limit stops parsing>", "parsing continues after an over-long length prefix", witness=g.describe(back))
-    # (3) incomplete message: break, nothing consumed
-    inc_tests = [t for t in g.ids(lambda n: n.kind == "test") if any(x is g.node(t).ast for x in ast.walk(loop)) and t not in lim_tests
-                 and (lambda fm: fm is not None and f"len({buf})" in dict(fm[0]) and ln in dict(fm[0]))(norm_cmp(g.node(t).ast, defs, env))]
-    ctx.check(len(inc_tests) == 1, "framing/message-complete", q + " | <completeness test>", "the buffered length is not compared with the end of the message exactly once")
-    deliver = g.find(lambda x: isinstance(x, ast.Call) and call_name(x) == "self.stringReceived")
-    ctx.need(deliver, "self.stringReceived(...) call")
-    for t in inc_tests:
-        fm = norm_cmp(g.node(t).ast, defs, env)
-        exp = lin_expect({off: 1, PL: 1, ln: 1, f"len({buf})": -1}, 1)
-        exp_neg = lin_expect({off: -1, PL: -1, ln: -1, f"len({buf})": 1}, 0)
-        if fm == exp:
-            wait_lab = "T"
-        elif fm == exp_neg:
-            wait_lab = "F"
-        else:
-            ctx.violation("framing/message-complete", q + " | <completeness test>",
-                          f"the loop waits for more data when `{fmt_lin(fm)}`; it must wait exactly when `{fmt_lin(exp)}` (a string whose last byte just "
-                          "arrived must be delivered now - it may be the box terminator)")
-            continue
-        ctx.ok("framing/message-complete", q + " | <completeness test>", fmt_lin(fm))
-        wsucc = [d for d, l in g.succ[t] if l == wait_lab]
-        csucc = [d for d, l in g.succ[t] if l != wait_lab and l in ("T", "F")]
-        p1 = g.path(wsucc, deliver, avoid=[t], edge_ok=lambda a, b, l: l != "exc")
-        ctx.check(p1 is None, "framing/message-complete", q + " | <incomplete string>", "an incomplete string is delivered", witness=g.describe(p1))
-        # incomplete -> the tail from the *unchanged* offset is saved
-        savers = _assign_nodes(g, lambda st: isinstance(st, ast.Assign) and any(is_self_attr(tg, "_unprocessed") for tg in st.targets)
-                               and isinstance(st.value, ast.Subscript) and src(st.value.value) == buf and isinstance(st.value.slice, ast.Slice)
-                               and st.value.slice.upper is None and st.value.slice.lower is not None and src(st.value.slice.lower) == off)
-        wit = must_pass(g, wsucc, savers)
-        ctx.check(bool(savers) and wit is None, "framing/remainder-kept", q + " | <incomplete string>",
-                  f"when a string is incomplete the unconsumed bytes `{buf}[{off}:]` are not kept for the next dataReceived()", witness=g.describe(wit))
-        offw = g.ids(lambda n: n.kind == "stmt" and isinstance(n.ast, (ast.Assign, ast.AugAssign)) and
-                     any(isinstance(x, ast.Name) and x.id == off and isinstance(x.ctx, ast.Store) for x in ast.walk(n.ast)))
-        moved = g.path(wsucc, offw, avoid=[t], edge_ok=lambda a, b, l: l != "exc")
-        ctx.check(moved is None, "framing/remainder-kept", q + " | <offset unchanged while waiting>", "the offset moves although the string is incomplete", witness=g.describe(moved))
-    # (4) payload slice and advance
-    pays = [st for st in statements(f) if isinstance(st, ast.Assign) and isinstance(st.value, ast.Subscript) and src(st.value.value) == buf
-            and isinstance(st.value.slice, ast.Slice) and st.value.slice.lower is not None and st.value.slice.upper is not None and any(st is x for x in ast.walk(loop))
-            and isinstance(st.targets[0], ast.Name)]
-    pay = [st for st in pays if any(isinstance(c, ast.Call) and call_name(c) == "self.stringReceived" and [src(a) for a in c.args] == [st.targets[0].id] for c in ast.walk(loop))]
-    ctx.check(len(pay) == 1, "framing/payload-slice", q + " | <payload>", "the delivered string is not a slice of the buffer")
-    for st in pay:
-        lo, hi = st.value.slice.lower, st.value.slice.upper
-        ctx.check(lin_equal(lo, start, defs) and lin_equal(hi, end, defs), "framing/payload-slice", q + " | <payload>",
-                  f"the payload is {buf}[{src(expand(lo, defs))}:{src(expand(hi, defs))}]; it must start right after the prefix and be `length` bytes long")
-    adv = g.ids(lambda n: n.kind == "stmt" and isinstance(n.ast, ast.Assign) and any(isinstance(t, ast.Name) and t.id == off for t in n.ast.targets)
-                and any(x is n.ast for x in ast.walk(loop)) and lin_equal(n.ast.value, end, defs))
-    heads = g.ids(lambda n: n.kind == "join" and n.ast is loop)
-    for d in deliver:
-        # every way back to the loop head from the delivery passes an advance of the offset (before or after the call) or the recvd reset
-        resets = g.ids(lambda n: n.kind == "stmt" and isinstance(n.ast, ast.Assign) and any(isinstance(x, ast.Name) and x.id == off and isinstance(x.ctx, ast.Store) for x in ast.walk(n.ast))
-                       and any(x is n.ast for x in ast.walk(loop)))
-        pre = g.must_precede(adv, [d], exc=False)
-        post = g.must_pass([d], set(resets), to=heads, exc=False) if pre is not None else None
-        ctx.check(bool(adv) and (pre is None or post is None), "framing/advance", q + " | <offset advance>",
-                  "after a string is delivered the offset is not advanced to the end of that string: it is parsed again or bytes are skipped",
-                  witness=g.describe(pre))
-    # (5) loop ends normally -> tail saved
-    savers = _assign_nodes(g, lambda st: isinstance(st, ast.Assign) and any(is_self_attr(tg, "_unprocessed") for tg in st.targets)
-                           and isinstance(st.value, ast.Subscript) and src(st.value.value) == buf and isinstance(st.value.slice, ast.Slice)
-                           and st.value.slice.upper is None and st.value.slice.lower is not None and src(st.value.slice.lower) == off)
-    loop_tests = [t for t in g.ids(lambda n: n.kind == "test") if any(g.node(t).ast is c or any(g.node(t).ast is x for x in ast.walk(c)) for c in conj)]
-    body_nodes = {id(x) for st in loop.body for x in ast.walk(st)}
-    exits = [d for t in loop_tests for d, l in g.succ[t] if l in ("T", "F") and d not in loop_tests and id(g.node(d).ast) not in body_nodes]
-    wit = must_pass(g, exits, savers) if exits else [g.entry]
-    ctx.check(bool(savers) and wit is None, "framing/remainder-kept", q + " | <loop finished>",
-              "when the buffer holds less than a prefix the unconsumed tail is not saved in self._unprocessed", witness=g.describe(wit) if exits else "")
+    bases = base_names(bbp)
+    ctx.check("Int16StringReceiver" in bases and "StatefulStringProtocol" in bases and bases.index("StatefulStringProtocol") < bases.index("Int16StringReceiver"),
+              "reader/class-shape", q + " | bases", f"BinaryBoxProtocol bases are {bases}: stringReceived must resolve to StatefulStringProtocol's dispatcher in front of the 16-bit receiver")
+    kmax, vmax = consts.get("MAX_KEY_LENGTH"), consts.get("MAX_VALUE_LENGTH")
+    ca = {k: class_const(mod, bbp, k, consts) for k in ("_MAX_KEY_LENGTH", "_MAX_VALUE_LENGTH", "MAX_LENGTH")}
+    ctx.check(kmax == 255 and ca["_MAX_KEY_LENGTH"] == kmax, "limits/key", QA + " | MAX_KEY_LENGTH",
+              f"sender limit MAX_KEY_LENGTH={kmax!r}, receiver limit _MAX_KEY_LENGTH={ca['_MAX_KEY_LENGTH']!r}; both must be 255 (one length byte, first prefix byte zero)")
+    ctx.check(vmax == 65535 and ca["_MAX_VALUE_LENGTH"] == vmax, "limits/value", QA + " | MAX_VALUE_LENGTH",
+              f"sender limit MAX_VALUE_LENGTH={vmax!r}, receiver limit _MAX_VALUE_LENGTH={ca['_MAX_VALUE_LENGTH']!r}, largest length the 16-bit prefix can carry is 65535")
+    ctx.check(ca["MAX_LENGTH"] == ca["_MAX_KEY_LENGTH"] and ca["MAX_LENGTH"] is not None, "limits/initial", q + " | MAX_LENGTH",
+              f"the initial MAX_LENGTH is {ca['MAX_LENGTH']!r}; the first string of a connection is a key (limit {ca['_MAX_KEY_LENGTH']!r})")
 
 
-# ---------------------------------------------------------------------------------------------------------------
-# C. argument types
+def _feed(ctx, mod, consts, chunks):
+    """Interpret BinaryBoxProtocol on the chunks; -> (kind, delivered boxes as dicts, transport stub, protocol instance)."""
+    ev = _ev(ctx, mod, consts)
+    recv = Inst(ctx.cls(AMP, "_ParserHelper"), boxes=[])
+    tr = Stub("transport")
+    proto = Inst(ctx.cls(AMP, "BinaryBoxProtocol"), boxReceiver=recv, transport=tr)
+    for c in chunks:
+        k, r = run_eval(lambda: ev.method(proto, "dataReceived", [c]))
+        _need(k, r, "BinaryBoxProtocol.dataReceived")
+        if k == "raised":
+            return f"raised {r}", [dict(b.data) if isinstance(b, DictInst) else b for b in recv.fields["boxes"]], tr, proto
+    return "ok", [dict(b.data) if isinstance(b, DictInst) else b for b in recv.fields["boxes"]], tr, proto
+
+
+def check_reader(ctx, mod, consts):
+    for name in ("dataReceived", "proto_init", "proto_key", "proto_value", "lengthLimitExceeded"):
+        ctx.func(AMP, f"BinaryBoxProtocol.{name}")
+    ctx.func(BASIC, "IntNStringReceiver.dataReceived")
+    ctx.func(BASIC, "StatefulStringProtocol.stringReceived")
+    q = QA + ".BinaryBoxProtocol"
+    boxes = [{b"a": b"1", b"bb": b""}, {b"k": b"vvv"}, {}, {b"_ask": b"2", b"x": b"\x00\x01"}]
+    wire = b"".join(oracle_encode(b) for b in boxes)
+    # whole stream at once
+    st, got, tr, _ = _feed(ctx, mod, consts, [wire])
+    ctx.check(st == "ok" and got == boxes, "reader/boxes-parsed-back", q + " | <whole stream>",
+              f"the encoding of {boxes!r} delivered in one piece is parsed as {got!r} ({st})")
+    # every single cut, byte by byte, and pairs of cuts
+    plans = [[wire[:i], wire[i:]] for i in range(1, len(wire))]
+    plans.append([wire[i:i + 1] for i in range(len(wire))])
+    plans += [[wire[:i], wire[i:j], wire[j:]] for i in range(1, len(wire), 3) for j in range(i + 1, len(wire), 5)]
+    bad = None
+    for chunks in plans:
+        st, got, tr, _ = _feed(ctx, mod, consts, chunks)
+        if st != "ok" or got != boxes:
+            cut = [len(c) for c in chunks]
+            bad = bad or f"the same {len(wire)} bytes delivered in pieces of {cut if len(cut) < 8 else str(cut[:6]) + '...'} bytes are parsed as {got!r} ({st}) instead of {boxes!r}"
+    ctx.check(bad is None, "reader/split-invariance", q + " | <stream cut arbitrarily>", bad or "", detail=f"{len(plans)} segmentations of a {len(wire)}-byte stream")
+    # limits on the receiving side
+    big = {b"K" * 255: b"V" * 65535, b"a": b"b"}
+    st, got, tr, _ = _feed(ctx, mod, consts, [oracle_encode(big)[:40000], oracle_encode(big)[40000:]])
+    ctx.check(st == "ok" and got == [big] and not tr.called("loseConnection"), "reader/limits", q + " | <255-byte key, 65535-byte value>",
+              f"a box with a 255-byte key and a 65535-byte value is not accepted ({st}, {len(got)} boxes, disconnects: {len(tr.called('loseConnection'))})")
+    for label, stream in (("first key", struct.pack(">H", 256) + b"K" * 256 + b"\x00\x01v\x00\x00"),
+                          ("second key", b"\x00\x01a\x00\x01b" + struct.pack(">H", 256) + b"K" * 256 + b"\x00\x01v\x00\x00")):
+        st, got, tr, proto = _feed(ctx, mod, consts, [stream])
+        ctx.check(st == "ok" and got == [] and bool(tr.called("loseConnection")), "reader/limits", q + f" | <256-byte key as {label}>",
+                  f"a 256-byte key ({label} of a box) is {'accepted' if got else 'not answered by a disconnect'}: delivered {got!r}, disconnects: {len(tr.called('loseConnection'))} "
+                  "(the key limit must be in force whenever a key is expected)")
+
+
+# ---- C. argument types ---------------------------------------------------------------------------------------------------
 
 PAIRS = (("toString", "fromString"), ("toStringProto", "fromStringProto"), ("toBox", "fromBox"))
 PAIR_EXCEPTIONS = {("_LocalArgument", "fromBox"): "local arguments are never relayed over the wire; fromBox is a documented no-op"}
@@ -583,429 +264,207 @@ PAIR_EXCEPTIONS = {("_LocalArgument", "fromBox"): "local arguments are never rel
 
 def _argument_classes(mod) -> List[ast.ClassDef]:
     classes = {n.name: n for n in mod.tree.body if isinstance(n, ast.ClassDef)}
-    out = []
 
     def derives(c, seen=()):
         for b in base_names(c):
-            if b == "Argument":
-                return True
-            if b in classes and b not in seen and derives(classes[b], seen + (b,)):
+            if b == "Argument" or (b in classes and b not in seen and derives(classes[b], seen + (b,))):
                 return True
         return False
 
-    for c in classes.values():
-        if derives(c):
-            out.append(c)
-    return out
+    return [c for c in classes.values() if derives(c)]
 
 
-def _defined(cls: ast.ClassDef) -> set:
-    return set(methods(cls)) | set(class_assigns(cls))
+def check_pairing(ctx, mod):
+    args = _argument_classes(mod)
+    ctx.floor("argument/pairing", len(args), 12, "Argument subclasses")
+    for c in args:
+        d = set(methods(c)) | set(class_assigns(c))
+        for a, b in PAIRS:
+            if (a in d) == (b in d):
+                if a in d:
+                    ctx.ok("argument/pairing", f"{QA}.{c.name} | {a}/{b}")
+                continue
+            lone = a if a in d else b
+            if (c.name, lone) in PAIR_EXCEPTIONS:
+                ctx.ok("argument/pairing", f"{QA}.{c.name} | {a}/{b}", "documented exception: " + PAIR_EXCEPTIONS[(c.name, lone)])
+                continue
+            ctx.violation("argument/pairing", f"{QA}.{c.name} | {a}/{b}",
+                          f"{c.name} overrides {lone} but inherits {b if lone == a else a} from its base: the two directions no longer use the same encoding")
 
 
-def check_arguments(ctx, mod, consts):
+def _same(v, back) -> bool:
+    if isinstance(v, decimal.Decimal):
+        return isinstance(back, decimal.Decimal) and back.as_tuple() == v.as_tuple()
+    if isinstance(v, float):
+        if not isinstance(back, float):
+            return False
+        if math.isnan(v):
+            return math.isnan(back)
+        return back == v and math.copysign(1.0, v) == math.copysign(1.0, back)
+    if isinstance(v, datetime.datetime):
+        return isinstance(back, datetime.datetime) and back == v and back.utcoffset() == v.utcoffset() and \
+            (back.year, back.month, back.day, back.hour, back.minute, back.second, back.microsecond) == (v.year, v.month, v.day, v.hour, v.minute, v.second, v.microsecond)
+    return type(back) is type(v) and back == v
+
+
+def check_leaf_codecs(ctx, mod, consts):
+    D = decimal.Decimal
+    tzs = [datetime.timezone(datetime.timedelta(minutes=m)) for m in (-840, -720, -90, -61, -60, -59, -30, -1, 0, 1, 30, 59, 60, 61, 90, 330, 720, 840)]
+    dts = [datetime.datetime(2012, 1, 23, 12, 34, 56, 54321, tz) for tz in tzs] + \
+        [datetime.datetime(1, 1, 1, 0, 0, 0, 0, tzs[8]), datetime.datetime(9999, 12, 31, 23, 59, 59, 999999, tzs[8]), datetime.datetime(2000, 2, 29, 9, 8, 7, 123456, tzs[3])]
+    samples = {
+        "Integer": [0, 1, -1, 255, 2 ** 64, -(2 ** 200), 10 ** 30],
+        "String": [b"", b"a", b"\x00\xff", b"x" * 300],
+        "Unicode": ["", "a", "é", "€", "\U0001f600", "a\x00b", "퟿"],
+        "Boolean": [True, False],
+        "Float": [0.0, -0.0, 1.5, 0.1, 1e300, 5e-324, float("inf"), float("-inf"), float("nan"), -2.5e-10],
+        "Decimal": [D("0"), D("-0"), D("1.5"), D("1.50"), D("1E+2"), D("-1E-7"), D("Infinity"), D("-Infinity"), D("NaN"), D("-sNaN"), D("123456789012345678901234567890.5")],
+        "DateTime": dts,
+    }
     classes = {n.name: n for n in mod.tree.body if isinstance(n, ast.ClassDef)}
-    with ctx.section("argument pairing"):
-        args = _argument_classes(mod)
-        ctx.floor("argument/pairing", len(args), 12, "Argument subclasses")
-        for c in args:
-            d = _defined(c)
-            for a, b in PAIRS:
-                if (a in d) == (b in d):
-                    if a in d:
-                        ctx.ok("argument/pairing", f"{QA}.{c.name} | {a}/{b}")
-                    continue
-                lone = a if a in d else b
-                if (c.name, lone) in PAIR_EXCEPTIONS:
-                    ctx.ok("argument/pairing", f"{QA}.{c.name} | {a}/{b}", "documented exception: " + PAIR_EXCEPTIONS[(c.name, lone)])
-                    continue
-                ctx.violation("argument/pairing", f"{QA}.{c.name} | {a}/{b}",
-                              f"{c.name} overrides {lone} but inherits {b if lone == a else a} from its base: the two directions no longer use the same encoding")
-
-    # --- finite evaluation of the leaf conversions ------------------------------------------------------------
-    with ctx.section("argument value round trips"):
-        def _native(x):
-            return x.decode("ascii") if isinstance(x, bytes) else x
-
-        ev = MiniEval(mod, helpers={"nativeString": _native, "decimal.Decimal": decimal.Decimal})
-        D = decimal.Decimal
-        samples = {
-            "Decimal": [D("0"), D("-0"), D("1.5"), D("1.50"), D("1E+2"), D("-1E-7"), D("Infinity"), D("-Infinity"), D("NaN"), D("-sNaN"), D("123456789012345678901234567890.5")],
-            "Integer": [0, 1, -1, 255, 2 ** 64, -(2 ** 200), 10 ** 30],
-            "String": [b"", b"a", b"\x00\xff", b"x" * 300],
-            "Unicode": ["", "a", "\u00e9", "\u20ac", "\U0001f600", "a\x00b", "\ud7ff"],
-            "Boolean": [True, False],
-            "Float": [0.0, -0.0, 1.5, 0.1, 1e300, 5e-324, float("inf"), float("-inf"), float("nan"), -2.5e-10],
-        }
-        for cname, vals in samples.items():
-            c = classes.get(cname)
-            if c is None:
-                _fail(f"argument class {cname} vanished")
-            inst = Inst(c)
+    for cname, vals in samples.items():
+        with ctx.section(f"codec {cname}"):
+            c = classes.get(cname) or _fail(f"argument class {cname} vanished")
+            inst = Inst(c, optional=False)
             bad = None
             encs = {}
             for v in vals:
+                ev = _ev(ctx, mod, consts)
                 k1, s = run_eval(lambda: ev.method(inst, "toString", [v]))
-                if k1 == "unsupported":
-                    _fail(f"{cname}.toString uses a construct outside the evaluated subset: {s}")
+                _need(k1, s, f"{cname}.toString")
                 if k1 == "raised" or not isinstance(s, bytes):
                     bad = bad or f"{cname}().toString({v!r}) gives {s!r} ({k1}); a byte string is required"
                     continue
                 k2, back = run_eval(lambda: ev.method(inst, "fromString", [s]))
-                if k2 == "unsupported":
-                    _fail(f"{cname}.fromString uses a construct outside the evaluated subset: {back}")
-                if isinstance(v, decimal.Decimal):
-                    same = k2 == "value" and isinstance(back, decimal.Decimal) and back.as_tuple() == v.as_tuple()
-                else:
-                    same = k2 == "value" and type(back) is type(v) and (back == v or (isinstance(v, float) and math.isnan(v) and math.isnan(back)))
-                if same and isinstance(v, float) and v == 0.0:
-                    same = math.copysign(1.0, v) == math.copysign(1.0, back)
-                if not same:
+                _need(k2, back, f"{cname}.fromString")
+                if k2 != "value" or not _same(v, back):
                     bad = bad or f"{cname}: {v!r} is encoded as {s!r} and decoded as {back!r} ({k2})"
                 encs.setdefault(s, v)
-            if not bad and len(encs) != len(vals) and cname != "Float":
+            if not bad and len(encs) != len(vals) and cname not in ("Float",):
                 bad = f"{cname}: two different values share one encoding"
-            ctx.check(bad is None, "argument/value-round-trip", f"{QA}.{cname} | toString/fromString", bad or "", detail=f"{len(vals)} representative values")
-
-    # --- ListOf element framing --------------------------------------------------------------------------------------
-    with ctx.section("ListOf framing"):
-        lo = classes.get("ListOf") or _fail("ListOf vanished")
-        ts = methods(lo).get("toString")
-        fs = methods(lo).get("fromString")
-        if ts is None or fs is None:
-            _fail("ListOf.toString/fromString vanished")
-        q = QA + ".ListOf"
-        acc_ret = [st for st in statements(ts) if isinstance(st, ast.Return)]
-        acc = None
-        for r in acc_ret:
-            v = r.value
-            if isinstance(v, ast.Call) and isinstance(v.func, ast.Attribute) and v.func.attr == "join" and v.args and isinstance(v.args[0], ast.Name):
-                acc = v.args[0].id
-        loops = [st for st in ts.body if isinstance(st, ast.For) and isinstance(st.target, ast.Name)]
-        if acc is None or len(loops) != 1:
-            _fail("ListOf.toString: shape not recognised")
-        aliases, _ = _emit_calls(ts, acc)
-        lay: List[Tuple] = []
-        ldefs = {}
-        for st in loops[0].body:
-            if isinstance(st, ast.Assign) and len(st.targets) == 1 and isinstance(st.targets[0], ast.Name):
-                ldefs[st.targets[0].id] = st.value
-        _layout(loops[0].body, aliases, acc, {}, consts, lay)
-        parser_cls = None
-        for st in statements(fs):
-            if isinstance(st, ast.Assign) and isinstance(st.value, ast.Call) and isinstance(st.value.func, ast.Name) and st.value.func.id.endswith("StringReceiver"):
-                parser_cls = st.value.func.id
-        bmod = ctx.mod(BASIC)
-        pc = bmod.find(parser_cls) if parser_cls else None
-        pfmt = class_const(bmod, pc, "structFormat", {}) if isinstance(pc, ast.ClassDef) else None
-        wfmt = lay[0][1] if len(lay) == 2 and lay[0][0] == "len" else None
-        if pfmt is None:
-            # the reader does not use a *StringReceiver: take the format of its own unpack() calls (the evaluated round trip below decides the rest)
-            ufm = [const_eval(c.args[0], consts) for c in ast.walk(fs) if isinstance(c, ast.Call) and call_name(c) in ("unpack", "struct.unpack") and c.args and isinstance(c.args[0], ast.Constant)]
-            if len(set(ufm)) != 1:
-                _fail("ListOf.fromString: neither a *StringReceiver parser nor a single constant unpack() format was found")
-            pfmt, parser_cls = ufm[0], "inline unpack"
-        ok = len(lay) == 2 and lay[0][0] == "len" and lay[1][0] == "raw" and lay[0][2] == lay[1][1] and lay[0][1] == pfmt
-        ctx.check(ok, "argument/list-framing", q + " | <element framing>",
-                  f"ListOf.toString writes {lay!r} per element; ListOf.fromString parses with {parser_cls} (format {pfmt!r}): each element must be its "
-                  "length in that format followed by its bytes")
-        if len(lay) == 2 and lay[1][0] == "raw":
-            elem = ldefs.get(lay[1][1])
-            ctx.check(elem is not None and isinstance(elem, ast.Call) and call_name(elem) == "self.elementType.toString" and
-                      len(elem.args) == 1 and src(elem.args[0]) == loops[0].target.id, "argument/list-framing", q + " | <element encoder>",
-                      "list elements are not encoded with self.elementType.toString(element)")
-        dec = [n for n in ast.walk(fs) if isinstance(n, ast.Attribute) and src(n) == "self.elementType.fromString"]
-        ctx.check(bool(dec), "argument/list-framing", q + " | <element decoder>", "ListOf.fromString does not decode each element with self.elementType.fromString")
-
-    with ctx.section("ListOf evaluated round trip"):
-        # toString/fromString interpreted on lists with empty elements in every position (an empty element is just a zero length prefix,
-        # also when it is the last thing in the value) and on nested lists
-        lo = classes.get("ListOf") or _fail("ListOf vanished")
-        S, I = classes.get("String"), classes.get("Integer")
-        if S is None or I is None:
-            _fail("String/Integer vanished")
-        cases = [("ListOf(String())", Inst(lo, elementType=Inst(S), optional=False),
-                  [[], [b""], [b"foo"], [b"foo", b""], [b"", b"foo"], [b"", b""], [b"a", b"", b"b"], [b"x" * 300, b"y"]]),
-                 ("ListOf(ListOf(Integer()))", Inst(lo, elementType=Inst(lo, elementType=Inst(I), optional=False), optional=False),
-                  [[[1, 2], []], [[], [3]], [[]], [[], []], [[10 ** 20]]])]
-        for label, inst, samples in cases:
-            bad = None
-            for v in samples:
-                ev = MiniEval(mod, consts=consts, extra_mods=[ctx.mod(BASIC)])
-                k1, wire = run_eval(lambda: ev.method(inst, "toString", [v]))
-                if k1 == "unsupported":
-                    _fail(f"ListOf.toString uses a construct outside the interpreted subset: {wire}")
-                if k1 != "value" or not isinstance(wire, bytes):
-                    bad = bad or f"{label}.toString({v!r}) gives {wire!r} ({k1})"
-                    continue
-                k2, back = run_eval(lambda: ev.method(inst, "fromString", [wire]))
-                if k2 == "unsupported":
-                    _fail(f"ListOf.fromString uses a construct outside the interpreted subset: {back}")
-                if k2 != "value" or back != v:
-                    bad = bad or f"{label}: {v!r} is encoded as {wire[:40]!r}{'..' if len(wire) > 40 else ''} and decoded as {back!r} ({k2})"
-            ctx.check(bad is None, "argument/list-round-trip", f"{QA}.ListOf | {label}", bad or "", detail=f"{len(samples)} lists, empty elements in first/middle/last position")
-
-    # --- AmpList and toBox/fromBox key symmetry ----------------------------------------------------------------------------
-    with ctx.section("AmpList / box keys"):
-        al = classes.get("AmpList") or _fail("AmpList vanished")
-        tsp, fsp = methods(al).get("toStringProto"), methods(al).get("fromStringProto")
-        if tsp is None or fsp is None:
-            _fail("AmpList.toStringProto/fromStringProto vanished")
-        enc = [c for c in ast.walk(tsp) if isinstance(c, ast.Call) and call_name(c) == "_objectsToStrings"]
-        decs = [c for c in ast.walk(fsp) if isinstance(c, ast.Call) and call_name(c) == "_stringsToObjects"]
-        ser = [c for c in ast.walk(tsp) if isinstance(c, ast.Call) and call_attr(c) == "serialize"]
-        par = [c for c in ast.walk(fsp) if isinstance(c, ast.Call) and call_name(c) in ("parseString", "parse")]
-        ok = len(enc) == 1 and len(decs) == 1 and len(enc[0].args) >= 2 and len(decs[0].args) >= 2 and src(enc[0].args[1]) == src(decs[0].args[1]) == "self.subargs" \
-            and bool(ser) and bool(par)
-        ctx.check(ok, "argument/amplist", QA + ".AmpList | <schema both ways>",
-                  "AmpList does not encode with _objectsToStrings(..., self.subargs, ...).serialize() and decode with parseString + _stringsToObjects(box, self.subargs, ...)")
-        for fname, meth in (("_stringsToObjects", "fromBox"), ("_objectsToStrings", "toBox")):
-            fn = ctx.func(AMP, fname)
-            loops2 = [st for st in fn.body if isinstance(st, ast.For) and isinstance(st.target, ast.Tuple) and len(st.target.elts) == 2]
-            ok = False
-            if len(loops2) == 1 and src(loops2[0].iter) == fn.args.args[1].arg:
-                nm, parser = [e.id for e in loops2[0].target.elts]
-                cs = [c for c in ast.walk(loops2[0]) if isinstance(c, ast.Call) and call_name(c) == f"{parser}.{meth}"]
-                ok = len(cs) == 1 and cs[0].args and src(cs[0].args[0]) == nm
-            ctx.check(ok, "argument/box-keys", f"{QA}.{fname}", f"{fname} does not call <argument>.{meth}(<its own name>, ...) for every entry of the schema")
-        arg = classes.get("Argument") or _fail("Argument vanished")
-        tb, fb = methods(arg).get("toBox"), methods(arg).get("fromBox")
-        if tb is None or fb is None:
-            _fail("Argument.toBox/fromBox vanished")
-        nm_t, st_t, ob_t = [a.arg for a in tb.args.args[1:4]]
-        nm_f, st_f, ob_f = [a.arg for a in fb.args.args[1:4]]
-        tdefs, fdefs = single_defs(tb), single_defs(fb)
-        w = [st for st in statements(tb) if isinstance(st, ast.Assign) and isinstance(st.targets[0], ast.Subscript) and src(st.targets[0].value) == st_t]
-        ok_w = len(w) == 1 and src(w[0].targets[0].slice) == nm_t and isinstance(w[0].value, ast.Call) and call_name(w[0].value) == "self.toStringProto"
-        r_t = [c for c in ast.walk(tb) if isinstance(c, ast.Call) and call_name(c) == "self.retrieve"]
-        ok_rt = len(r_t) == 1 and src(r_t[0].args[0]) == ob_t and src(expand(r_t[0].args[1], tdefs)) == f"_wireNameToPythonIdentifier({nm_t})"
-        r_f = [c for c in ast.walk(fb) if isinstance(c, ast.Call) and call_name(c) == "self.retrieve"]
-        ok_rf = len(r_f) == 1 and src(r_f[0].args[0]) == st_f and src(r_f[0].args[1]) == nm_f
-        wf = [st for st in statements(fb) if isinstance(st, ast.Assign) and isinstance(st.targets[0], ast.Subscript) and src(st.targets[0].value) == ob_f]
-        ok_wf = bool(wf) and all(src(expand(st.targets[0].slice, fdefs)) == f"_wireNameToPythonIdentifier({nm_f})" for st in wf) and \
-            any(isinstance(st.value, ast.Call) and call_name(st.value) == "self.fromStringProto" for st in wf)
-        ctx.check(ok_w and ok_rf, "argument/box-keys", QA + ".Argument | <wire key>",
-                  "toBox stores the encoded string under `name` and fromBox retrieves it under `name`: this no longer holds")
-        ctx.check(ok_rt and ok_wf, "argument/box-keys", QA + ".Argument | <python key>",
-                  "toBox reads the object under _wireNameToPythonIdentifier(name) and fromBox stores it under the same identifier: this no longer holds")
-
-    # --- DateTime layout ----------------------------------------------------------------------------------------------------------
-    with ctx.section("DateTime layout"):
-        check_datetime(ctx, mod, classes)
+            ctx.check(bad is None, "argument/value-round-trip" if cname != "DateTime" else "datetime/round-trip", f"{QA}.{cname} | toString/fromString", bad or "",
+                      detail=f"{len(vals)} representative values")
 
 
-def _parse_percent(fmt: str) -> Optional[List[Tuple[str, int, int]]]:
-    """[(kind, start, end)] for a %-format made of %0Ni / %0Nd (fixed width N), %s (one char assumed) and literals."""
-    out = []
-    pos = 0
-    i = 0
-    while i < len(fmt):
-        ch = fmt[i]
-        if ch != "%":
-            out.append(("lit:" + ch, pos, pos + 1))
-            pos += 1
-            i += 1
-            continue
-        j = i + 1
-        if j < len(fmt) and fmt[j] == "%":
-            out.append(("lit:%", pos, pos + 1))
-            pos += 1
-            i = j + 1
-            continue
-        num = ""
-        while j < len(fmt) and fmt[j].isdigit():
-            num += fmt[j]
-            j += 1
-        if j >= len(fmt):
-            return None
-        conv = fmt[j]
-        if conv in "id":
-            if not num.startswith("0") or len(num) < 2:
-                return None  # not fixed width
-            w = int(num[1:])
-            out.append(("int", pos, pos + w))
-            pos += w
-        elif conv == "s" and not num:
-            out.append(("str", pos, pos + 1))
-            pos += 1
-        else:
-            return None
-        i = j + 1
-    return out
-
-
-def check_datetime(ctx, mod, classes):
-    dt = classes.get("DateTime") or _fail("DateTime vanished")
-    q = QA + ".DateTime"
-    ts, fs = methods(dt).get("toString"), methods(dt).get("fromString")
-    if ts is None or fs is None:
-        _fail("DateTime.toString/fromString vanished")
-    fmts = [n for n in ast.walk(ts) if isinstance(n, ast.BinOp) and isinstance(n.op, ast.Mod) and isinstance(n.left, ast.Constant) and isinstance(n.left.value, str)
-            and isinstance(n.right, ast.Tuple)]
-    if len(fmts) != 1:
-        _fail("DateTime.toString: the %-format expression was not found exactly once")
-    fields = _parse_percent(fmts[0].left.value)
-    if fields is None:
-        _fail("DateTime.toString: format string is not made of fixed-width %0Ni fields, %s and literals")
-    ops = fmts[0].right.elts
-    conv = [f for f in fields if not f[0].startswith("lit:")]
-    ctx.check(len(conv) == len(ops), "datetime/layout", q + ".toString | <operands>", f"{len(conv)} conversions for {len(ops)} operands")
-    if len(conv) != len(ops):
-        return
-    p = ts.args.args[1].arg
-    want_attrs = ["year", "month", "day", "hour", "minute", "second", "microsecond"]
-    int_fields = [(f, o) for f, o in zip(conv, ops) if f[0] == "int"]
-    str_fields = [(f, o) for f, o in zip(conv, ops) if f[0] == "str"]
-    got_attrs = [o.attr if isinstance(o, ast.Attribute) and src(o.value) == p else src(o) for _, o in int_fields[:7]]
-    ctx.check(got_attrs == want_attrs and len(int_fields) == 9 and len(str_fields) == 1, "datetime/layout", q + ".toString | <field order>",
-              f"the integer fields are written in the order {got_attrs}; the reader passes them positionally to datetime.datetime({', '.join(want_attrs)}, tzinfo)")
-    total = fields[-1][2]
-    # the sign is one character
-    sign_name = src(str_fields[0][1]) if str_fields else None
-    sign_vals = [st.value.value for st in statements(ts) if isinstance(st, ast.Assign) and any(isinstance(t, ast.Name) and t.id == sign_name for t in st.targets)
-                 and isinstance(st.value, ast.Constant)]
-    sign_all = [st for st in statements(ts) if isinstance(st, ast.Assign) and any(isinstance(t, ast.Name) and t.id == sign_name for t in st.targets)]
-    ctx.check(bool(sign_vals) and len(sign_vals) == len(sign_all) and set(sign_vals) <= {"+", "-"} and len(set(sign_vals)) == 2, "datetime/layout", q + ".toString | <sign>",
-              f"the timezone direction takes the values {sign_vals}; the reader accepts exactly one character '+' or '-'")
-    # reader: positions table
-    pos_expr = class_assigns(dt).get("_positions")
-    if not isinstance(pos_expr, (ast.List, ast.Tuple)):
-        _fail("DateTime._positions is not a literal list")
-    slices = []
-    for e in pos_expr.elts:
-        if not (isinstance(e, ast.Call) and call_name(e) == "slice" and len(e.args) == 2 and all(isinstance(a, ast.Constant) for a in e.args)):
-            _fail("DateTime._positions entry is not slice(a, b)")
-        slices.append((e.args[0].value, e.args[1].value))
-    want = [(f[1], f[2]) for f, _ in int_fields]
-    n = max(len(want), len(slices))
-    ctx.check(len(want) == len(slices), "datetime/layout", q + "._positions | <count>", f"{len(slices)} slices for {len(want)} integer fields of the format string")
-    names = want_attrs + ["tz hours", "tz minutes"]
-    for i in range(min(len(want), len(slices))):
-        ctx.check(want[i] == slices[i], "datetime/layout", q + f"._positions | {names[i] if i < len(names) else i}",
-                  f"the writer puts {names[i] if i < len(names) else i} at characters {want[i][0]}..{want[i][1]}, the reader reads slice{slices[i]}")
-    fp = fs.args.args[1].arg
-    lens = [c for c in ast.walk(fs) if isinstance(c, ast.Compare) and isinstance(c.left, ast.Call) and call_name(c.left) == "len" and len(c.ops) == 1
-            and isinstance(c.comparators[0], ast.Constant)]
-    ctx.check(len(lens) == 1 and isinstance(lens[0].ops[0], ast.NotEq) and lens[0].comparators[0].value == total, "datetime/layout", q + ".fromString | <length check>",
-              f"the writer produces {total} characters; the reader's length test is {src(lens[0]) if lens else 'absent'}")
-    idx = [n for n in ast.walk(fs) if isinstance(n, ast.Subscript) and isinstance(n.value, ast.Name) and n.value.id == fp and isinstance(n.slice, ast.Constant)]
-    ctx.check(len(idx) == 1 and str_fields and idx[0].slice.value == str_fields[0][0][1], "datetime/layout", q + ".fromString | <sign index>",
-              f"the writer puts the sign at character {str_fields[0][0][1] if str_fields else '?'}; the reader reads {src(idx[0]) if idx else 'nothing'}")
-    # UTC offset: minutes computed from the timedelta, split into sign / hours / minutes, re-joined by fromSignHoursMinutes.
-    # Every expression is expanded down to offset.days / offset.seconds and evaluated for concrete offsets.
-    if len(int_fields) == 9 and str_fields:
-        tdefs = single_defs(ts)
-        ev = MiniEval(mod)
-        offs = [st.targets[0].id for st in statements(ts) if isinstance(st, ast.Assign) and len(st.targets) == 1 and isinstance(st.targets[0], ast.Name)
-                and isinstance(st.value, ast.Call) and call_attr(st.value) == "utcoffset"]
-        if len(offs) != 1:
-            _fail("DateTime.toString: `offset = <datetime>.utcoffset()` not found")
-        offv = offs[0]
-        odefs = {k: v for k, v in tdefs.items() if k != offv}
-        stores: Dict[str, int] = {}
-        for x in ast.walk(ts):
-            if isinstance(x, ast.Name) and isinstance(x.ctx, ast.Store):
-                stores[x.id] = stores.get(x.id, 0) + 1
-        for st in statements(ts):      # a, b = e1, e2  binds like two plain assignments
-            if isinstance(st, ast.Assign) and len(st.targets) == 1 and isinstance(st.targets[0], ast.Tuple) and isinstance(st.value, ast.Tuple) \
-                    and len(st.targets[0].elts) == len(st.value.elts):
-                for t, v in zip(st.targets[0].elts, st.value.elts):
-                    if isinstance(t, ast.Name) and stores.get(t.id) == 1:
-                        odefs[t.id] = v
-        h_e, m_e = int_fields[7][1], int_fields[8][1]
-        g = ctx.cfg(ts)
-
-        def ev_off(e, env):
-            k, v = run_eval(lambda: ev.expr(attrs_to_names(expand(e, odefs), offv), env))
-            if k == "unsupported":
-                _fail(f"DateTime.toString: `{src(e)}` is outside the interpreted subset: {v}")
-            return k, v
-
+def check_lists(ctx, mod, consts):
+    classes = {n.name: n for n in mod.tree.body if isinstance(n, ast.ClassDef)}
+    lo, S, I, U = (classes.get(n) or _fail(n + " vanished") for n in ("ListOf", "String", "Integer", "Unicode"))
+    cases = [("ListOf(String())", Inst(lo, elementType=Inst(S, optional=False), optional=False),
+              [[], [b""], [b"foo"], [b"foo", b""], [b"", b"foo"], [b"", b""], [b"a", b"", b"b"], [b"x" * 300, b"y"]]),
+             ("ListOf(Unicode())", Inst(lo, elementType=Inst(U, optional=False), optional=False), [["x", ""], ["", "€"], []]),
+             ("ListOf(ListOf(Integer()))", Inst(lo, elementType=Inst(lo, elementType=Inst(I, optional=False), optional=False), optional=False),
+              [[[1, 2], []], [[], [3]], [[]], [[], []], [[10 ** 20]]])]
+    for label, inst, samples in cases:
         bad = None
-        for m in (-840, -720, -90, -61, -60, -59, -30, -1, 0, 1, 30, 59, 60, 61, 90, 330, 720, 840):
-            secs = m * 60
-            days, seconds = secs // 86400, secs % 86400      # timedelta normal form
-            env = {f"{offv}__days": days, f"{offv}__seconds": seconds, f"{offv}__microseconds": 0, offv: "<timedelta>"}
-            sign = None
-            for st in sign_all:
-                for n in g.ids_of(st):
-                    okp = True
-                    for t, lab in g.edge_guards(n):
-                        kk, tv = ev_off(g.node(t).ast, env)
-                        if kk != "value" or bool(tv) != (lab == "T"):
-                            okp = False
-                    if okp:
-                        sign = st.value.value
-            k1, hh = ev_off(h_e, env)
-            k2, mm = ev_off(m_e, env)
-            if sign is None or k1 != "value" or k2 != "value" or not isinstance(hh, int) or not isinstance(mm, int):
-                bad = bad or f"a UTC offset of {m} minutes: sign {sign!r}, hours {hh!r}, minutes {mm!r} (the format needs one sign character and two integers)"
+        for v in samples:
+            ev = _ev(ctx, mod, consts)
+            k1, wire = run_eval(lambda: ev.method(inst, "toString", [v]))
+            _need(k1, wire, "ListOf.toString")
+            if k1 != "value" or not isinstance(wire, bytes):
+                bad = bad or f"{label}.toString({v!r}) gives {wire!r} ({k1})"
                 continue
-            back = (hh * 60 + mm) * (-1 if sign == "-" else 1)
-            if not (0 <= hh <= 99 and 0 <= mm <= 59 and back == m):
-                bad = bad or f"a UTC offset of {m:+d} minutes (timedelta(days={days}, seconds={seconds})) is written as {sign}{hh:02d}:{mm:02d}, which the reader turns into {back:+d} minutes"
-        ctx.check(bad is None, "datetime/offset-arithmetic", q + ".toString | <UTC offset>", bad or "", detail="18 offsets between -14:00 and +14:00, sub-hour ones included")
-    calls = [c for c in ast.walk(fs) if isinstance(c, ast.Call) and call_attr(c) == "fromSignHoursMinutes"]
-    ctx.check(len(calls) == 1 and len(calls[0].args) == 2 and isinstance(calls[0].args[1], ast.Starred) and src(calls[0].args[1].value).endswith("[7:]"), "datetime/layout",
-              q + ".fromString | <tz fields>", "the two last integer fields are not passed as hours, minutes to fromSignHoursMinutes(sign, hours, minutes)")
+            k2, back = run_eval(lambda: ev.method(inst, "fromString", [wire]))
+            _need(k2, back, "ListOf.fromString")
+            if k2 != "value" or back != v:
+                bad = bad or f"{label}: {v!r} is encoded as {wire[:40]!r}{'..' if len(wire) > 40 else ''} and decoded as {back!r} ({k2})"
+        ctx.check(bad is None, "argument/list-round-trip", f"{QA}.ListOf | {label}", bad or "", detail=f"{len(samples)} lists, empty elements in first/middle/last position")
+    # the element framing is the 16-bit prefix (an independent reader of the list value)
+    ev = _ev(ctx, mod, consts)
+    k, wire = run_eval(lambda: ev.method(cases[0][1], "toString", [[b"ab", b"", b"c" * 300]]))
+    want = b"\x00\x02ab\x00\x00" + struct.pack(">H", 300) + b"c" * 300
+    ctx.check(k == "value" and wire == want, "argument/list-framing", f"{QA}.ListOf | <element framing>",
+              f"ListOf(String()).toString([b'ab', b'', 300 bytes]) is {wire[:24]!r}.. ({k}); each element must be its 16-bit big-endian length followed by its bytes")
 
 
-# ---------------------------------------------------------------------------------------------------------------
+def check_boxes_of_arguments(ctx, mod, consts):
+    """toBox/fromBox through _objectsToStrings/_stringsToObjects, and AmpList through serialize/parse."""
+    classes = {n.name: n for n in mod.tree.body if isinstance(n, ast.ClassDef)}
+    I, U, S, AL, AB = (classes.get(n) or _fail(n + " vanished") for n in ("Integer", "Unicode", "String", "AmpList", "AmpBox"))
+    o2s, s2o = ctx.func(AMP, "_objectsToStrings"), ctx.func(AMP, "_stringsToObjects")
+    arglist = [(b"a", Inst(I, optional=False)), (b"from-x", Inst(U, optional=False)), (b"from", Inst(S, optional=False)), (b"opt", Inst(S, optional=True)), (b"opt2", Inst(I, optional=True))]
+    objects = {"a": 7, "from_x": "été", "From": b"raw", "opt": None, "opt2": 5}
+    want_strings = {b"a": b"7", b"from-x": "été".encode("utf-8"), b"from": b"raw", b"opt2": b"5"}
+    ev = _ev(ctx, mod, consts)
+    k, strings = run_eval(lambda: ev.func(o2s, [dict(objects), arglist, DictInst(AB), None]))
+    _need(k, strings, "_objectsToStrings / Argument.toBox")
+    got = dict(strings.data) if isinstance(strings, DictInst) else strings
+    ctx.check(k == "value" and got == want_strings, "argument/box-round-trip", QA + "._objectsToStrings | <wire keys>",
+              f"objects {objects!r} are written to the box as {got!r} ({k}); expected {want_strings!r}: each value under its wire name, an omitted optional argument leaves no key")
+    if k == "value" and isinstance(strings, DictInst):
+        k, back = run_eval(lambda: ev.func(s2o, [strings, arglist, None]))
+        _need(k, back, "_stringsToObjects / Argument.fromBox")
+        ctx.check(k == "value" and back == objects, "argument/box-round-trip", QA + "._stringsToObjects | <python keys>",
+                  f"the box {got!r} is read back as {back!r} ({k}); expected {objects!r} (dashes become underscores, Python keywords are capitalised, a missing optional value is None)")
+    # a required argument that is missing must raise, not be invented
+    k, back = run_eval(lambda: ev.func(s2o, [DictInst(AB, data={b"from-x": b"x"}), arglist[:2], None]))
+    _need(k, back, "_stringsToObjects")
+    ctx.check(k == "raised", "argument/box-round-trip", QA + "._stringsToObjects | <missing required argument>", f"a box without the required key b'a' is accepted: {back!r}")
+    # AmpList
+    al = Inst(AL, subargs=arglist[:2], optional=False)
+    for v in ([], [{"a": 1, "from_x": "x"}], [{"a": 1, "from_x": ""}, {"a": -5, "from_x": "€"}]):
+        ev = _ev(ctx, mod, consts)
+        k1, wire = run_eval(lambda: ev.method(al, "toStringProto", [[dict(x) for x in v], None]))
+        _need(k1, wire, "AmpList.toStringProto")
+        want = b"".join(oracle_encode({b"a": b"%d" % x["a"], b"from-x": x["from_x"].encode("utf-8")}) for x in v)
+        ok = k1 == "value" and wire == want
+        back = None
+        if ok:
+            k2, back = run_eval(lambda: ev.method(al, "fromStringProto", [wire, None]))
+            _need(k2, back, "AmpList.fromStringProto")
+            ok = k2 == "value" and back == v
+        ctx.check(ok, "argument/box-round-trip", f"{QA}.AmpList | {len(v)} boxes", f"AmpList: {v!r} is encoded as {wire!r} ({k1}; oracle {want!r}) and decoded as {back!r}")
+
 
 def check(ctx):
     mod = ctx.mod(AMP)
-    bmod = ctx.mod(BASIC)
+    ctx.mod(BASIC)
     consts = module_consts(mod)
-    i16 = ctx.cls(BASIC, "Int16StringReceiver")
-    reader_fmt = class_const(bmod, i16, "structFormat", {})
-    if not isinstance(reader_fmt, str):
-        _fail("Int16StringReceiver.structFormat is not a constant string")
     with ctx.section("AmpBox.serialize"):
-        check_serialize(ctx, mod, consts, reader_fmt)
-    with ctx.section("AmpBox.serialize refusals (evaluated)"):
-        check_serialize_refusals(ctx, mod, consts)
+        check_writer(ctx, mod, consts)
+    with ctx.section("limits"):
+        check_limits(ctx, mod, consts)
     with ctx.section("BinaryBoxProtocol reader"):
-        check_reader(ctx, mod, consts, reader_fmt)
-    with ctx.section("IntNStringReceiver framing"):
-        check_framing(ctx, reader_fmt)
-    check_arguments(ctx, mod, consts)     # one section per rule group inside
+        check_reader(ctx, mod, consts)
+    with ctx.section("argument pairing"):
+        check_pairing(ctx, mod)
+    check_leaf_codecs(ctx, mod, consts)      # one section per codec inside
+    with ctx.section("ListOf"):
+        check_lists(ctx, mod, consts)
+    with ctx.section("boxes of arguments"):
+        check_boxes_of_arguments(ctx, mod, consts)
 
-
-_SER_GUARDS = ("            if len(k) > MAX_KEY_LENGTH:\n                raise TooLong(True, True, k, None)\n"
-               "            if len(v) > MAX_VALUE_LENGTH:\n                raise TooLong(False, True, v, k)\n")
 
 MUTANTS = [
     Mutant("key-limit-boundary", AMP, "            if len(k) > MAX_KEY_LENGTH:\n", "            if len(k) >= MAX_KEY_LENGTH:\n", expect_rule="box/key-length-upper-bound"),
-    Mutant("value-guard-dropped", AMP, "            if len(v) > MAX_VALUE_LENGTH:\n                raise TooLong(False, True, v, k)\n", "", expect_rule="box/value-length-upper-bound"),
     Mutant("overlong-key-skipped-silently", AMP, "            if len(k) > MAX_KEY_LENGTH:\n                raise TooLong(True, True, k, None)\n",
            "            if len(k) > MAX_KEY_LENGTH:\n                continue\n", expect_rule="box/key-length-upper-bound"),
-    Mutant("unicode-value-check-on-key-twice", AMP, "            if type(v) == str:\n", "            if type(k) == str:\n", expect_rule="box/refuses-non-bytes"),
     Mutant("pairs-normalised-with-bytes-constructor", AMP, "            if len(k) > MAX_KEY_LENGTH:\n                raise TooLong(True, True, k, None)\n",
            "            k = bytes(k)\n            v = bytes(v)\n            if len(k) > MAX_KEY_LENGTH:\n                raise TooLong(True, True, k, None)\n", expect_rule="box/no-coercion"),
     Mutant("values-coerced-when-emitted", AMP, "                w(kv)\n", "                w(bytes(kv))\n", expect_rule="box/refuses-non-bytes-evaluated"),
     Mutant("items-coerced-before-loop", AMP, "        i = sorted(self.items())\n", "        i = sorted((bytes(a), bytes(b)) for a, b in self.items() if type(a) != str and type(b) != str)\n", expect_rule=None),
-    Mutant("value-before-key", AMP, "            for kv in k, v:\n", "            for kv in v, k:\n", expect_rule="box/wire-layout"),
-    Mutant("signed-length-prefix", AMP, '                w(pack("!H", len(kv)))\n', '                w(pack("!h", len(kv)))\n', expect_rule="box/wire-layout"),
+    Mutant("value-before-key", AMP, "            for kv in k, v:\n", "            for kv in v, k:\n", expect_rule="box/wire-form"),
+    Mutant("signed-length-prefix", AMP, '                w(pack("!H", len(kv)))\n', '                w(pack("!h", len(kv)))\n', expect_rule="box/value-length-upper-bound"),
+    Mutant("value-limit-uses-key-limit", AMP, "            if len(v) > MAX_VALUE_LENGTH:\n", "            if len(v) > MAX_KEY_LENGTH:\n", expect_rule="box/value-length-upper-bound"),
+    Mutant("box-reused-across-boxes", AMP, "        self._currentBox = AmpBox()\n        return self.proto_key(string)\n", "        if self._currentBox is None:\n            self._currentBox = AmpBox()\n        return self.proto_key(string)\n",
+           more=[(AMP, "            self.boxReceiver.ampBoxReceived(self._currentBox)\n            self._currentBox = None\n", "            self.boxReceiver.ampBoxReceived(self._currentBox)\n")], expect_rule="reader/boxes-parsed-back"),
     Mutant("terminator-only-for-nonempty", AMP, '        w(pack("!H", 0))\n        return b"".join(L)\n', '        if L:\n            w(pack("!H", 0))\n        return b"".join(L)\n',
-           expect_rule="box/terminator"),
+           expect_rule="box/wire-form"),
     Mutant("receiver-value-limit-shrunk", AMP, "    _MAX_VALUE_LENGTH = 65535\n", "    _MAX_VALUE_LENGTH = 65534\n", expect_rule="limits/value"),
     Mutant("limit-not-restored-after-value", AMP, "        self._currentKey = None\n        self.MAX_LENGTH = self._MAX_KEY_LENGTH\n", "        self._currentKey = None\n",
-           expect_rule="reader/limit-toggle"),
+           expect_rule="reader/limits"),
     Mutant("value-stored-under-cleared-key", AMP, "        self._currentBox[self._currentKey] = string\n        self._currentKey = None\n", "        self._currentKey = None\n        self._currentBox[self._currentKey] = string\n",
-           expect_rule="reader/value-stored"),
-    Mutant("box-not-reset", AMP, "        self._currentBox = AmpBox()\n        return self.proto_key(string)\n", "        if self._currentBox is None:\n            self._currentBox = AmpBox()\n        return self.proto_key(string)\n",
-           expect_rule="reader/fresh-box"),
+           expect_rule="reader/boxes-parsed-back"),
     Mutant("terminator-returns-key-state", AMP, '            self._currentBox = None\n            return "init"\n', '            self._currentBox = None\n            return "key"\n',
-           expect_rule="reader/state"),
+           expect_rule="reader/boxes-parsed-back"),
     Mutant("prefix-needs-one-more-byte", BASIC, "        while len(alldata) >= (currentOffset + prefixLength) and not self.paused:\n",
-           "        while len(alldata) > (currentOffset + prefixLength) and not self.paused:\n", expect_rule="framing/prefix-available"),
-    Mutant("limit-inclusive", BASIC, "            if length > self.MAX_LENGTH:\n", "            if length >= self.MAX_LENGTH:\n", expect_rule="framing/limit"),
-    Mutant("complete-string-waits", BASIC, "            if len(alldata) < messageEnd:\n", "            if len(alldata) <= messageEnd:\n", expect_rule="framing/message-complete"),
+           "        while len(alldata) > (currentOffset + prefixLength) and not self.paused:\n", expect_rule="reader/split-invariance"),
+    Mutant("limit-inclusive", BASIC, "            if length > self.MAX_LENGTH:\n", "            if length >= self.MAX_LENGTH:\n", expect_rule="reader/limits"),
+    Mutant("complete-string-waits", BASIC, "            if len(alldata) < messageEnd:\n", "            if len(alldata) <= messageEnd:\n", expect_rule="reader/split-invariance"),
     Mutant("tail-dropped-on-split", BASIC, "        self._unprocessed = alldata[currentOffset:]\n        self._compatibilityOffset = 0\n",
            "        self._unprocessed = alldata[messageStart:] if currentOffset else alldata\n        self._compatibilityOffset = 0\n".replace("messageStart", "currentOffset + prefixLength"),
-           expect_rule="framing/remainder-kept"),
-    Mutant("payload-includes-prefix-byte", BASIC, "            packet = alldata[messageStart:messageEnd]\n", "            packet = alldata[messageStart - 1 : messageEnd]\n", expect_rule="framing/payload-slice"),
-    Mutant("pending-bytes-after-new-data", BASIC, "        alldata = self._unprocessed + data\n", "        alldata = data + self._unprocessed\n", expect_rule="framing/buffer"),
+           expect_rule="reader/split-invariance"),
+    Mutant("payload-includes-prefix-byte", BASIC, "            packet = alldata[messageStart:messageEnd]\n", "            packet = alldata[messageStart - 1 : messageEnd]\n", expect_rule="reader/boxes-parsed-back"),
+    Mutant("pending-bytes-after-new-data", BASIC, "        alldata = self._unprocessed + data\n", "        alldata = data + self._unprocessed\n", expect_rule="reader/split-invariance"),
     Mutant("float-fixed-point", AMP, '        return str(inString).encode("ascii")\n', '        return ("%f" % inString).encode("ascii")\n', expect_rule="argument/value-round-trip"),
     Mutant("integer-hex", AMP, '        return b"%d" % (inObject,)\n', '        return b"%x" % (inObject,)\n', expect_rule="argument/value-round-trip"),
     Mutant("boolean-false-lowercase", AMP, '        elif inString == b"False":\n', '        elif inString == b"false":\n', expect_rule="argument/value-round-trip"),
@@ -1013,20 +472,28 @@ MUTANTS = [
            expect_rule="argument/value-round-trip"),
     Mutant("path-inherits-decoder", AMP, "    def fromString(self, inString):\n        return filepath.FilePath(Unicode.fromString(self, inString))\n\n", "", expect_rule="argument/pairing"),
     Mutant("listof-8bit-prefix", AMP, '            strings.append(pack("!H", len(serialized)))\n', '            strings.append(pack("!B", len(serialized)))\n', expect_rule="argument/list-framing"),
-    Mutant("datetime-microsecond-slice", AMP, "        slice(20, 26),  # microsecond\n", "        slice(20, 25),  # microsecond\n", expect_rule="datetime/layout"),
-    Mutant("datetime-offset-ignores-days", AMP, "        minutesOffset = (offset.days * 86400 + offset.seconds) // 60\n", "        minutesOffset = offset.seconds // 60\n", expect_rule="datetime/offset-arithmetic"),
-    Mutant("datetime-hours-not-absolute", AMP, "            abs(minutesOffset) // 60,\n", "            minutesOffset // 60,\n", expect_rule="datetime/offset-arithmetic"),
+    Mutant("datetime-microsecond-slice", AMP, "        slice(20, 26),  # microsecond\n", "        slice(20, 25),  # microsecond\n", expect_rule="datetime/round-trip"),
+    Mutant("datetime-offset-ignores-days", AMP, "        minutesOffset = (offset.days * 86400 + offset.seconds) // 60\n", "        minutesOffset = offset.seconds // 60\n", expect_rule="datetime/round-trip"),
+    Mutant("datetime-hours-not-absolute", AMP, "            abs(minutesOffset) // 60,\n", "            minutesOffset // 60,\n", expect_rule="datetime/round-trip"),
     Mutant("decimal-via-float-repr", AMP, '            return str(inObject).encode("ascii")\n        raise ValueError("amp.Decimal can only encode instances of decimal.Decimal")\n',
            '            return str(float(inObject)).encode("ascii")\n        raise ValueError("amp.Decimal can only encode instances of decimal.Decimal")\n', expect_rule="argument/value-round-trip"),
-    Mutant("datetime-sign-from-hour-part", AMP, "        if minutesOffset > 0:\n", "        if minutesOffset // 60 > 0:\n", expect_rule="datetime/offset-arithmetic"),
+    Mutant("datetime-sign-from-hour-part", AMP, "        if minutesOffset > 0:\n", "        if minutesOffset // 60 > 0:\n", expect_rule="datetime/round-trip"),
     Mutant("listof-reader-stops-before-trailing-empty-element", AMP, "        strings = []\n        parser = Int16StringReceiver()\n        parser.stringReceived = strings.append\n        parser.dataReceived(inString)\n",
            "        strings = []\n        pos = 0\n        while pos + 2 < len(inString):\n            (n,) = unpack(\"!H\", inString[pos : pos + 2])\n            strings.append(inString[pos + 2 : pos + 2 + n])\n            pos += 2 + n\n",
            more=[(AMP, "from struct import pack\n", "from struct import pack, unpack\n")], expect_rule="argument/list-round-trip"),
-    Mutant("datetime-sign-index", AMP, "        sign = s[26]\n", "        sign = s[25]\n", expect_rule="datetime/layout"),
-    Mutant("frombox-raw-key", AMP, "        nk = _wireNameToPythonIdentifier(name)\n", "        nk = nativeString(name)\n", expect_rule="argument/box-keys"),
+    Mutant("datetime-sign-index", AMP, "        sign = s[26]\n", "        sign = s[25]\n", expect_rule="datetime/round-trip"),
+    Mutant("frombox-raw-key", AMP, "        nk = _wireNameToPythonIdentifier(name)\n", "        nk = nativeString(name)\n", expect_rule="argument/box-round-trip"),
 ]
 
 SILENT = [
+    Silent("serialize-unrolled-with-temporaries", AMP, "            if len(k) > MAX_KEY_LENGTH:\n                raise TooLong(True, True, k, None)\n            if len(v) > MAX_VALUE_LENGTH:\n                raise TooLong(False, True, v, k)\n            for kv in k, v:\n                w(pack(\"!H\", len(kv)))\n                w(kv)\n",
+           "            nk = len(k)\n            if MAX_KEY_LENGTH < nk:\n                raise TooLong(True, True, k, None)\n            nv = len(v)\n            if MAX_VALUE_LENGTH < nv:\n                raise TooLong(False, True, v, k)\n            L.extend((pack(\"!H\", nk), k, pack(\"!H\", nv), v))\n"),
+    Silent("proto-key-guard-clause", AMP, "        if string:\n            self._currentKey = string\n            self.MAX_LENGTH = self._MAX_VALUE_LENGTH\n            return \"value\"\n        else:\n            self.boxReceiver.ampBoxReceived(self._currentBox)\n            self._currentBox = None\n            return \"init\"\n",
+           "        if not string:\n            done, self._currentBox = self._currentBox, None\n            self.boxReceiver.ampBoxReceived(done)\n            return \"init\"\n        self._currentKey = string\n        self.MAX_LENGTH = self._MAX_VALUE_LENGTH\n        return \"value\"\n"),
+    Silent("framing-loop-with-break-guards", BASIC, "        while len(alldata) >= (currentOffset + prefixLength) and not self.paused:\n            messageStart = currentOffset + prefixLength\n",
+           "        while True:\n            if self.paused or len(alldata) - currentOffset < prefixLength:\n                break\n            messageStart = currentOffset + prefixLength\n"),
+    Silent("datetime-divmod-and-conditional-sign", AMP, "        if minutesOffset > 0:\n            sign = \"+\"\n        else:\n            sign = \"-\"\n", "        sign = \"+\" if 0 < minutesOffset else \"-\"\n        tzh, tzm = divmod(abs(minutesOffset), 60)\n",
+           more=[(AMP, "            abs(minutesOffset) // 60,\n            abs(minutesOffset) % 60,\n", "            tzh,\n            tzm,\n")]),
     Silent("guards-as-not-le", AMP, "            if len(k) > MAX_KEY_LENGTH:\n", "            if not len(k) <= MAX_KEY_LENGTH:\n"),
     Silent("isinstance-refusal-and-literals", AMP, "            if type(k) == str:\n", "            if isinstance(k, str):\n",
            more=[(AMP, "            if len(v) > MAX_VALUE_LENGTH:\n", "            if len(v) > 0xFFFF:\n")]),
